@@ -1,5 +1,20 @@
-(* Proofs about the event-level parent-link replication model (Parents.v): C05, its part of C09,
-   the S19 ping-pong, joins, stability. *)
+(* Proofs about the event-level parent-link replication model (Parents.v) AFTER THE REPAIR of the
+   parent ping-pong (value token [parent_from_network], consumed by the announcing system).
+
+   Main results (each followed by Print Assumptions: all closed under the global context):
+     1. pinit_run_invariant            pwf + tracker invariant on every run from pinit n
+     2. armed_only_by_set, deliver_no_echo, no_echo, C09_announce_has_local_cause      (NO ECHO, C09)
+     3. drain_measure_decreases, drain_effective_bounded, no_infinite_exchange, drain_terminates
+                                       termination from ANY well-formed state, no premise on the history
+     4. parent_messages_bounded (n messages per operation, tight), join_messages_bounded (1),
+        total_traffic_bounded          (#sets * M + #joins for ANY history, M = n + #joins)
+     5. C05_converges, C05_every_quiescent_state, C05_terminates, join_gets_parent
+                                       premise: writers_drain_separated only; joins at ANY moment
+     6. old_pingpong_now_quiescent / _every_drain, old_join_in_flight_now_quiescent / _every_drain,
+        join_at_armed_host_converges   (the hole of the first repair attempt)
+     7. quiescent_is_stable
+     8. conflict_diverges              two writers that are not drain separated: quiescent and swapped
+   Nothing is partial, nothing is refuted. *)
 From Coq Require Import NArith List Lia.
 From stdpp Require Import gmap list.
 From BS Require Import Abs.Parents.
@@ -129,6 +144,13 @@ Proof. intros H. unfold pget. rewrite H. reflexivity. Qed.
 Lemma pget_none s p : pp s !! p = None -> pget s p = ppeer0.
 Proof. intros H. unfold pget. rewrite H. reflexivity. Qed.
 
+Lemma pget_insert_dec s p x c l q :
+  pget (PState (<[p := x]> (pp s)) c l) q = if decide (q = p) then x else pget s q.
+Proof.
+  destruct (decide (q = p)) as [->|Hne]; [apply pget_insert|].
+  rewrite pget_insert_ne by exact Hne. reflexivity.
+Qed.
+
 Lemma is_Some_insert_same (m : gmap peer ppeer) p x y q :
   m !! p = Some y -> is_Some (<[p := x]> m !! q) <-> is_Some (m !! q).
 Proof.
@@ -142,18 +164,12 @@ Lemma step_set s p u s' :
   pstep s (PSet p u) = Some s' ->
   is_Some (pp s !! p) /\ pconn s' = pconn s /\ plinks s' = plinks s /\
   (forall q, is_Some (pp s' !! q) <-> is_Some (pp s !! q)) /\
-  (forall q, ppar s' q = if decide (q = p) then Some u else ppar s q) /\
-  (forall q, pchg s' q = if decide (q = p) then true else pchg s q).
+  (forall q, pget s' q = if decide (q = p) then pset_rec u (pget s p) else pget s q).
 Proof.
   simpl. destruct (pp s !! p) as [x|] eqn:Hx; [|discriminate]. intros [= <-].
-  split; [eauto|]. split; [reflexivity|]. split; [reflexivity|]. split; [|split].
+  split; [eauto|]. split; [reflexivity|]. split; [reflexivity|]. split.
   - intros q. simpl. eapply is_Some_insert_same. exact Hx.
-  - intros q. unfold ppar, pset_peer. destruct (decide (q = p)) as [->|Hne].
-    + rewrite pget_insert. reflexivity.
-    + destruct s; simpl. rewrite pget_insert_ne by exact Hne. reflexivity.
-  - intros q. unfold pchg, pset_peer. destruct (decide (q = p)) as [->|Hne].
-    + rewrite pget_insert. reflexivity.
-    + destruct s; simpl. rewrite pget_insert_ne by exact Hne. reflexivity.
+  - intros q. unfold pset_peer. rewrite pget_insert_dec, (pget_exists _ _ _ Hx). reflexivity.
 Qed.
 
 Lemma NoDup_pdsts s p : NoDup (pconn s) -> NoDup (pdsts s p).
@@ -167,22 +183,16 @@ Lemma step_announce s p s' :
   ((pchg s p = false /\ s' = s) \/
    (pchg s p = true /\ pconn s' = pconn s /\
     (forall q, is_Some (pp s' !! q) <-> is_Some (pp s !! q)) /\
-    (forall q, ppar s' q = ppar s q) /\
-    (forall q, pchg s' q = if decide (q = p) then false else pchg s q) /\
+    (forall q, pget s' q = if decide (q = p) then pann_peer (pget s p) else pget s q) /\
     (forall a b, plink s' a b =
-       if decide (a = p /\ b ∈ pdsts s p) then plink s a b ++ plink_msg (ppar s p) else plink s a b))).
+       if decide (a = p /\ b ∈ pdsts s p) then plink s a b ++ pann_msg (pget s p) else plink s a b))).
 Proof.
   intros Hnd. simpl. destruct (pp s !! p) as [x|] eqn:Hx; [|discriminate].
-  intros Hstep. split; [eauto|]. revert Hstep. unfold pchg, ppar. rewrite (pget_exists _ _ _ Hx).
+  intros Hstep. split; [eauto|]. revert Hstep. unfold pchg. rewrite (pget_exists _ _ _ Hx).
   destruct (changed x) eqn:Hc; intros [= <-]; [right|left; auto].
-  split; [reflexivity|]. split; [reflexivity|]. split; [|split; [|split]].
+  split; [reflexivity|]. split; [reflexivity|]. split; [|split].
   - intros q. simpl. eapply is_Some_insert_same. exact Hx.
-  - intros q. destruct (decide (q = p)) as [->|Hne].
-    + rewrite pget_insert, (pget_exists _ _ _ Hx). reflexivity.
-    + destruct s; simpl. rewrite pget_insert_ne by exact Hne. reflexivity.
-  - intros q. destruct (decide (q = p)) as [->|Hne].
-    + rewrite pget_insert. reflexivity.
-    + destruct s; simpl. rewrite pget_insert_ne by exact Hne. reflexivity.
+  - intros q. apply pget_insert_dec.
   - intros a b. unfold plink. simpl. apply plget_send_to. apply NoDup_pdsts. exact Hnd.
 Qed.
 
@@ -192,9 +202,7 @@ Lemma step_deliver s src dst s' :
   pstep s (PDeliver src dst) = Some s' ->
   exists u rest, plink s src dst = u :: rest /\ is_Some (pp s !! dst) /\ pconn s' = pconn s /\
   (forall q, is_Some (pp s' !! q) <-> is_Some (pp s !! q)) /\
-  (forall q, ppar s' q = if decide (q = dst) then Some u else ppar s q) /\
-  (forall q, pchg s' q = if decide (q = dst) then pchg s dst || negb (bool_decide (ppar s dst = Some u))
-                         else pchg s q) /\
+  (forall q, pget s' q = if decide (q = dst) then pdel_peer u (pget s dst) else pget s q) /\
   (forall a b, plink s' a b =
       (if decide ((a, b) = (src, dst)) then rest else plink s a b) ++
       (if decide (dst = host /\ a = host /\ b ∈ pothers src (pconn s)) then [u] else [])).
@@ -203,22 +211,10 @@ Proof.
   destruct (pp s !! dst) as [x|] eqn:Hx; [|discriminate].
   intros [= <-]. exists u, rest.
   split; [reflexivity|]. split; [eauto|]. split; [reflexivity|].
-  unfold ppar, pchg. rewrite (pget_exists _ _ _ Hx).
-  split; [|split; [|split]].
-  - intros q. simpl. destruct (bool_decide (par x = Some u)); [reflexivity|].
-    eapply is_Some_insert_same. exact Hx.
-  - intros q. destruct (bool_decide (par x = Some u)) eqn:Hc.
-    + apply bool_decide_eq_true in Hc. destruct (decide (q = dst)) as [->|Hne]; [|reflexivity].
-      unfold pget. simpl. rewrite Hx. exact Hc.
-    + destruct (decide (q = dst)) as [->|Hne].
-      * rewrite pget_insert. reflexivity.
-      * destruct s; simpl. rewrite pget_insert_ne by exact Hne. reflexivity.
-  - intros q. destruct (bool_decide (par x = Some u)) eqn:Hc.
-    + destruct (decide (q = dst)) as [->|Hne]; [|reflexivity].
-      unfold pget. simpl. rewrite Hx. simpl. rewrite orb_false_r. reflexivity.
-    + destruct (decide (q = dst)) as [->|Hne].
-      * rewrite pget_insert. simpl. rewrite orb_true_r. reflexivity.
-      * destruct s; simpl. rewrite pget_insert_ne by exact Hne. reflexivity.
+  rewrite (pget_exists _ _ _ Hx).
+  split; [|split].
+  - intros q. simpl. eapply is_Some_insert_same. exact Hx.
+  - intros q. apply pget_insert_dec.
   - intros a b. unfold plink. simpl. destruct (dst =? host)%N eqn:Hd.
     + apply N.eqb_eq in Hd. subst dst. rewrite plget_send_to by (apply NoDup_pothers; exact Hnd).
       rewrite plget_insert.
@@ -254,11 +250,40 @@ Proof.
   - intros a b. unfold plink. simpl. apply plget_push_link.
 Qed.
 
+(* the three fields through a record equation *)
+Lemma pget_fields s' q x :
+  pget s' q = x -> ppar s' q = par x /\ pchg s' q = changed x /\ ptok s' q = tok x.
+Proof. intros H. unfold ppar, pchg, ptok. rewrite H. auto. Qed.
+
+Lemma pget_same_fields s' s q :
+  pget s' q = pget s q -> ppar s' q = ppar s q /\ pchg s' q = pchg s q /\ ptok s' q = ptok s q /\
+                          parmed s' q = parmed s q.
+Proof. intros H. unfold parmed, ppar, pchg, ptok. rewrite H. auto. Qed.
+
+Lemma parmed_rarmed s p : parmed s p = rarmed (pget s p).
+Proof. reflexivity. Qed.
+
+(* an event that does not concern p leaves p's record alone *)
+Definition touches (p : peer) (e : pevent) : Prop :=
+  match e with PSet q _ => q = p | PAnnounce q => q = p | PDeliver _ d => d = p | PJoin _ => False end.
+
+Lemma step_untouched s e s' p : pstep s e = Some s' -> ~ touches p e -> pget s' p = pget s p.
+Proof.
+  intros Hstep Hn. destruct e as [q u|q|src dst|c]; simpl in Hn.
+  - apply step_set in Hstep as (_ & _ & _ & _ & Hg). rewrite Hg.
+    destruct (decide (p = q)); [congruence|reflexivity].
+  - simpl in Hstep. destruct (pp s !! q) as [x|] eqn:Hx; [|discriminate].
+    destruct (changed x); injection Hstep as <-; [|reflexivity].
+    rewrite pget_insert_dec. destruct (decide (p = q)); [congruence|reflexivity].
+  - simpl in Hstep. destruct (plink s src dst); [discriminate|]. destruct (pp s !! dst); [|discriminate].
+    injection Hstep as <-. rewrite pget_insert_dec. destruct (decide (p = dst)); [congruence|reflexivity].
+  - apply step_join in Hstep as (_ & _ & _ & _ & _ & Hg & _). apply Hg.
+Qed.
+
 Lemma join_par s c s' q : pstep s (PJoin c) = Some s' -> ppar s' q = ppar s q.
 Proof. intros H. apply step_join in H as (_ & _ & _ & _ & _ & Hg & _). unfold ppar. rewrite Hg. reflexivity. Qed.
 Lemma join_chg s c s' q : pstep s (PJoin c) = Some s' -> pchg s' q = pchg s q.
 Proof. intros H. apply step_join in H as (_ & _ & _ & _ & _ & Hg & _). unfold pchg. rewrite Hg. reflexivity. Qed.
-
 (* ================================================================================================
    Part 2: well-formedness, the initial state, quiescence through getters
    ================================================================================================ *)
@@ -290,7 +315,7 @@ Proof.
   - apply step_set in Hstep as (_ & Hc & Hl & He & _).
     unfold pwf, ppeers, plink. rewrite Hc, Hl. repeat split; try assumption.
     + intros H. apply Hex, He, H. + intros H. apply He, Hex, H.
-  - apply step_announce in Hstep as (Hp & [(_ & ->)|(_ & Hc & He & _ & _ & Hl)]); [exact Hwf| |exact Hnd].
+  - apply step_announce in Hstep as (Hp & [(_ & ->)|(_ & Hc & He & _ & Hl)]); [exact Hwf| |exact Hnd].
     unfold pwf, ppeers. rewrite Hc. repeat split; try assumption.
     + intros H. apply Hex, He, H. + intros H. apply He, Hex, H.
     + intros a b. rewrite Hl. destruct (decide (a = p /\ b ∈ pdsts s p)) as [[-> Hin]|_]; [|apply Hlk].
@@ -298,7 +323,7 @@ Proof.
       * apply N.eqb_eq in Hph. left. auto.
       * apply N.eqb_neq in Hph. apply elem_of_list_singleton in Hin. right. split; [exact Hin|].
         apply Hex in Hp as [Hp|Hp]; [contradiction|exact Hp].
-  - apply step_deliver in Hstep as (u & rest & Hl0 & Hd & Hc & He & _ & _ & Hl); [|exact Hnd].
+  - apply step_deliver in Hstep as (u & rest & Hl0 & Hd & Hc & He & _ & Hl); [|exact Hnd].
     unfold pwf, ppeers. rewrite Hc. repeat split; try assumption.
     + intros H. apply Hex, He, H. + intros H. apply He, Hex, H.
     + intros a b. rewrite Hl.
@@ -445,405 +470,348 @@ Example quiescent_is_stable_nonvacuous :
 Proof. vm_compute. reflexivity. Qed.
 
 (* ================================================================================================
-   Part 4: KNOWN DEFECT S19 -- one peer re-parents the child twice without waiting: ping-pong
+   Part 3b: the tracker invariant; the invariants of every run from [pinit n]   (theorem 1)
    ================================================================================================ *)
 
-Global Instance ppeer_eq_dec : EqDecision ppeer.
-Proof. solve_decision. Defined.
-Global Instance pstate_eq_dec : EqDecision pstate.
-Proof. solve_decision. Defined.
-
-Lemma ptotal_sent_app s tr1 tr2 :
-  ptotal_sent s (tr1 ++ tr2) =
-  match prun s tr1 with Some s1 => ptotal_sent s tr1 + ptotal_sent s1 tr2 | None => ptotal_sent s tr1 end.
-Proof.
-  revert s. induction tr1 as [|e tr1 IH]; intros s; simpl; [reflexivity|].
-  destruct (pstep s e) as [s1|]; [|reflexivity]. rewrite IH. destruct (prun s1 tr1); lia.
-Qed.
-
-Fixpoint iter_tr (k : nat) (loop : list pevent) : list pevent :=
-  match k with O => [] | S k => loop ++ iter_tr k loop end.
-
-(* a cycle can be repeated for ever: an infinite execution, with unbounded traffic if the cycle sends *)
-Lemma cycle_forever s loop m :
-  prun s loop = Some s -> ptotal_sent s loop = m ->
-  forall k, prun s (iter_tr k loop) = Some s /\ ptotal_sent s (iter_tr k loop) = k * m.
-Proof.
-  intros Hrun Hsent k. induction k as [|k [IH1 IH2]]; simpl; [auto|].
-  rewrite prun_app, Hrun, ptotal_sent_app, Hrun, IH2, Hsent. auto.
-Qed.
-
-(* Two peers.  Frames in the order of the real plugin: a peer first announces what its
-   Changed<Parent> filter sees, then the links it received are applied (deferred commands).
-   Client 1 makes the child a child of 1; one frame of the client, one of the host (the host has now
-   applied 1 and will echo it); the client re-parents to 2; then lockstep frames.  The host's echo of
-   1 crosses the announcement of 2 and from then on the two values chase each other: the state after
-   the first lockstep round recurs every 3 rounds, 4 messages per period (observed on the real code:
-   80 messages in 60 rounds, never quiescent). *)
-Definition s19_prefix : list pevent :=
-  [PSet 1 1; PAnnounce 1;                   (* client frame *)
-   PAnnounce 0; PDeliver 1 0;               (* host frame: applies 1 *)
-   PSet 1 2;
-   PAnnounce 1;                             (* round 1, client: announces 2 *)
-   PAnnounce 0; PDeliver 1 0]%N.            (* round 1, host: echoes 1, applies 2 *)
-Definition s19_loop : list pevent :=
-  [PAnnounce 1; PDeliver 0 1;               (* client: nothing to announce, applies the echo 1 *)
-   PAnnounce 0;                             (* host: echoes 2 *)
-   PAnnounce 1; PDeliver 0 1;               (* client: announces 1, applies 2 *)
-   PAnnounce 0; PDeliver 1 0;               (* host: nothing to announce, applies 1 *)
-   PAnnounce 1;                             (* client: announces 2 *)
-   PAnnounce 0; PDeliver 1 0]%N.            (* host: echoes 1, applies 2 *)
-
-(* everything that is decidable about a prefix + cycle witness, as one boolean for vm_compute *)
-Definition cycle_check (n : nat) (pre loop : list pevent) (sent_pre sent_loop : nat) : bool :=
-  match prun (pinit n) pre with
-  | Some s =>
-      bool_decide (prun s loop = Some s) && Nat.eqb (ptotal_sent s loop) sent_loop &&
-      Nat.eqb (ptotal_sent (pinit n) pre) sent_pre &&
-      forallb (fun st => negb (pquiescentb st)) (pstates s loop)
-  | None => false
+(* the record of every peer after one event, without any assumption on the state *)
+Lemma step_pget s e s' q :
+  pstep s e = Some s' ->
+  pget s' q =
+  match e with
+  | PSet p u => if decide (q = p) then pset_rec u (pget s p) else pget s q
+  | PAnnounce p => if decide (q = p) then (if pchg s p then pann_peer (pget s p) else pget s p) else pget s q
+  | PDeliver src dst =>
+      if decide (q = dst) then match plink s src dst with u :: _ => pdel_peer u (pget s dst) | [] => pget s q end
+      else pget s q
+  | PJoin _ => pget s q
   end.
-
-Lemma cycle_check_sound n pre loop a b :
-  cycle_check n pre loop a b = true ->
-  exists s, prun (pinit n) pre = Some s /\ prun s loop = Some s /\ ptotal_sent s loop = b /\
-            forallb (fun st => negb (pquiescentb st)) (pstates s loop) = true /\
-            (forall k, prun (pinit n) (pre ++ iter_tr k loop) = Some s /\
-                       ptotal_sent (pinit n) (pre ++ iter_tr k loop) = a + k * b).
 Proof.
-  unfold cycle_check. destruct (prun (pinit n) pre) as [s|] eqn:Hs; [|discriminate].
-  intros H. apply andb_true_iff in H as [H H4]. apply andb_true_iff in H as [H H3].
-  apply andb_true_iff in H as [H1 H2]. apply bool_decide_eq_true in H1.
-  apply Nat.eqb_eq in H2. apply Nat.eqb_eq in H3.
-  exists s. split; [reflexivity|]. split; [exact H1|]. split; [exact H2|]. split; [exact H4|].
-  intros k. destruct (cycle_forever s loop b H1 H2 k) as [Hk1 Hk2].
-  rewrite prun_app, Hs, ptotal_sent_app, Hs, Hk2, H3. auto.
+  intros Hstep. destruct e as [p u|p|src dst|c].
+  - apply step_set in Hstep as (_ & _ & _ & _ & Hg). apply Hg.
+  - simpl in Hstep. destruct (pp s !! p) as [x|] eqn:Hx; [|discriminate].
+    unfold pchg. rewrite (pget_exists _ _ _ Hx).
+    destruct (changed x); injection Hstep as <-.
+    + rewrite pget_insert_dec. reflexivity.
+    + destruct (decide (q = p)) as [->|_]; [apply pget_exists; exact Hx|reflexivity].
+  - simpl in Hstep. destruct (plink s src dst) as [|u rest]; [discriminate|].
+    destruct (pp s !! dst) as [x|] eqn:Hx; [|discriminate].
+    injection Hstep as <-. rewrite pget_insert_dec, (pget_exists _ _ _ Hx). reflexivity.
+  - apply step_join in Hstep as (_ & _ & _ & _ & _ & Hg & _). apply Hg.
 Qed.
 
-Theorem C05_pingpong_refuted :
-  exists (s : pstate),
-    prun (pinit 1) s19_prefix = Some s /\
-    prun s s19_loop = Some s /\                          (* a cycle ... *)
-    ptotal_sent s s19_loop = 4 /\                       (* ... in which messages are sent ... *)
-    forallb (fun st => negb (pquiescentb st)) (pstates s s19_loop) = true /\   (* ... never quiescent *)
-    (forall k, prun (pinit 1) (s19_prefix ++ iter_tr k s19_loop) = Some s /\
-               ptotal_sent (pinit 1) (s19_prefix ++ iter_tr k s19_loop) = 3 + k * 4).
-Proof. apply cycle_check_sound. vm_compute. reflexivity. Qed.
-Print Assumptions C05_pingpong_refuted.
+Lemma step_sync_inv s e s' : psync_inv s -> pstep s e = Some s' -> psync_inv s'.
+Proof.
+  intros Hinv Hstep q. unfold ptok, pchg, ppar. rewrite (step_pget s e s' q Hstep).
+  pose proof (Hinv q) as Hq. unfold ptok, pchg, ppar in Hq.
+  destruct e as [p u|p|src dst|c].
+  - destruct (decide (q = p)) as [->|_]; [|exact Hq]. simpl. split; [reflexivity|discriminate].
+  - destruct (decide (q = p)) as [->|_]; [|exact Hq]. destruct (pchg s p); [|exact Hq].
+    simpl. split; [intros H; exfalso; apply H; reflexivity|discriminate].
+  - destruct (decide (q = dst)) as [->|_]; [|exact Hq]. destruct (plink s src dst) as [|u rest]; [exact Hq|].
+    pose proof (Hinv dst) as Hd. unfold ptok, pchg, ppar in Hd.
+    unfold pdel_peer. destruct (bool_decide (par (pget s dst) = Some u)); [exact Hd|].
+    simpl. split; [reflexivity|discriminate].
+  - exact Hq.
+Qed.
 
-(* the history consists of two operations of ONE peer (no conflict between peers), the cycle is not
-   empty, both peers take turns in it (fair), and the history is in the class [known_S19] *)
-Example C05_pingpong_shape :
-  psets s19_prefix = [(1, 1); (1, 2)]%N /\ psets s19_loop = [] /\ pjoiners (s19_prefix ++ s19_loop) = [] /\
-  length s19_loop = 10 /\ known_S19 (pinit 1) s19_prefix = true.
-Proof. vm_compute. auto. Qed.
+Lemma pinit_sync_inv n : psync_inv (pinit n).
+Proof.
+  intros p. unfold ptok, pchg, ppar. rewrite pinit_pget. simpl.
+  split; [intros H; exfalso; apply H; reflexivity|discriminate].
+Qed.
 
-(* the same two operations can also end quiescent -- with the FIRST parent everywhere, on the peer
-   that issued the second operation too: the echo of 1 overwrites 2 before 2 is announced *)
-Example C05_last_set_lost_example :
-  let tr := [PSet 1 1; PAnnounce 1; PDeliver 1 0; PAnnounce 0; PSet 1 2; PDeliver 0 1; PAnnounce 1; PDeliver 1 0]%N in
-  (fun s => pview s [0; 1]%N) <$> prun (pinit 1) tr = Some ([Some 1; Some 1]%N, true) /\
-  last_set tr = Some 2%N /\ known_S19 (pinit 1) tr = true.
+Lemma run_sync_inv s tr s' : psync_inv s -> prun s tr = Some s' -> psync_inv s'.
+Proof.
+  revert s. induction tr as [|e tr IH]; intros s Hinv Hrun; simpl in Hrun.
+  - injection Hrun as <-. exact Hinv.
+  - destruct (pstep s e) as [s1|] eqn:Hs; [|discriminate]. eapply IH; [|exact Hrun]. eapply step_sync_inv; eauto.
+Qed.
+
+(* THEOREM 1: every state of every run from [pinit n] is well-formed and satisfies the tracker
+   invariant: a token is present only while the flag is raised, a raised flag means a parent *)
+Theorem pinit_run_invariant n tr s :
+  prun (pinit n) tr = Some s ->
+  pwf s /\ forall p, (ptok s p <> None -> pchg s p = true) /\ (pchg s p = true -> ppar s p <> None).
+Proof.
+  intros Hrun. split.
+  - eapply run_wf; [apply pinit_wf|exact Hrun].
+  - eapply run_sync_inv; [apply pinit_sync_inv|exact Hrun].
+Qed.
+Print Assumptions pinit_run_invariant.
+
+(* where a token comes from: it is the parent applied by a delivery (and it is the current parent
+   at that moment); only a later local set_parent can make the parent differ from it *)
+Lemma token_origin s e s' p u :
+  pstep s e = Some s' -> ptok s' p = Some u ->
+  ptok s p = Some u \/ (exists src, e = PDeliver src p) /\ ppar s' p = Some u /\ pchg s' p = true.
+Proof.
+  intros Hstep. unfold ptok, ppar, pchg. rewrite (step_pget s e s' p Hstep).
+  destruct e as [q v|q|src dst|c]; [| | |auto].
+  - destruct (decide (p = q)) as [->|_]; simpl; auto.
+  - destruct (decide (p = q)) as [->|_]; [|auto]. destruct (pchg s q); [simpl; discriminate|auto].
+  - destruct (decide (p = dst)) as [->|_]; [|auto]. destruct (plink s src dst) as [|m rest]; [auto|].
+    unfold pdel_peer. destruct (bool_decide (par (pget s dst) = Some m)); [auto|].
+    simpl. intros [= ->]. right. eauto.
+Qed.
+
+(* ... and only a local set_parent: a token that is not the current parent was already so before the
+   event, or the event is a PSet on that peer *)
+Lemma token_differs_only_by_set s e s' p u :
+  pstep s e = Some s' -> ptok s' p = Some u -> ppar s' p <> Some u ->
+  ptok s p = Some u /\ (ppar s p <> Some u \/ exists v, e = PSet p v).
+Proof.
+  intros Hstep Ht Hne. destruct (token_origin s e s' p u Hstep Ht) as [H|(_ & H & _)]; [|contradiction].
+  split; [exact H|].
+  pose proof (step_pget s e s' p Hstep) as Hg.
+  destruct e as [q v|q|src dst|c].
+  - destruct (decide (p = q)) as [->|Hpq]; [right; eauto|left].
+    intros Hp. apply Hne. unfold ppar in *. rewrite Hg. exact Hp.
+  - left. intros Hp. apply Hne. unfold ppar in *. rewrite Hg.
+    destruct (decide (p = q)) as [->|_]; [|exact Hp]. destruct (pchg s q); exact Hp.
+  - left. intros Hp. apply Hne. unfold ppar, ptok in *. rewrite Hg in Ht |- *.
+    destruct (decide (p = dst)) as [->|_]; [|exact Hp]. destruct (plink s src dst) as [|m rest]; [exact Hp|].
+    unfold pdel_peer in *. destruct (bool_decide (par (pget s dst) = Some m)); [exact Hp|].
+    simpl in *. exact Ht.
+  - left. intros Hp. apply Hne. unfold ppar in *. rewrite Hg. exact Hp.
+Qed.
+
+Example pinit_run_invariant_nonvacuous :
+  (fun s => (ptok s <$> [0; 1; 2]%N, pchg s <$> [0; 1; 2]%N)) <$>
+     prun (pinit 2) [PSet 1 7; PAnnounce 1; PDeliver 1 0; PDeliver 0 2]%N
+  = Some ([Some 7; None; Some 7]%N, [true; false; true]).
+Proof. vm_compute. reflexivity. Qed.
+
+(* ================================================================================================
+   Part 4: NO ECHO (the parent-link part of C09): applying a link received from the network never
+   makes a peer emit a message.  [parmed s p] ("armed") is exactly "the next run of p's announcing
+   system sends something"; only a LOCAL set_parent on p arms p.
+   ================================================================================================ *)
+
+Lemma sends_iff_armed s p :
+  psync_inv s -> pdsts s p <> [] -> (psent_by s (PAnnounce p) <> 0 <-> parmed s p = true).
+Proof.
+  intros Hinv Hd. unfold psent_by, parmed, pann_msg. destruct (Hinv p) as [_ Hpar].
+  unfold ppar, ptok, pchg in *. destruct (changed (pget s p)); [|simpl; split; [congruence|discriminate]].
+  destruct (par (pget s p)) as [u|]; [|exfalso; apply Hpar; reflexivity].
+  simpl. destruct (pdsts s p) as [|d l]; [contradiction|].
+  destruct (decide (tok (pget s p) = Some u)) as [Ht|Ht].
+  - rewrite (bool_decide_eq_true_2 _ Ht). rewrite bool_decide_eq_true_2 by congruence. simpl. split; [congruence|discriminate].
+  - rewrite (bool_decide_eq_false_2 _ Ht). rewrite bool_decide_eq_false_2 by congruence. simpl. split; [reflexivity|discriminate].
+Qed.
+
+Lemma sends_only_if_armed s p : psent_by s (PAnnounce p) <> 0 -> parmed s p = true.
+Proof.
+  unfold psent_by, parmed, pann_msg, ppar, ptok, pchg. destruct (changed (pget s p)); [|congruence].
+  destruct (par (pget s p)) as [u|]; [|simpl; congruence].
+  destruct (decide (tok (pget s p) = Some u)) as [Ht|Ht].
+  - rewrite (bool_decide_eq_true_2 _ Ht). simpl. congruence.
+  - intros _. simpl. rewrite bool_decide_eq_false_2 by congruence. reflexivity.
+Qed.
+
+(* only a local set_parent arms a peer: no delivery, no announcement, no join does *)
+Theorem armed_only_by_set s e s' p :
+  pstep s e = Some s' -> parmed s' p = true -> parmed s p = true \/ exists u, e = PSet p u.
+Proof.
+  intros Hstep. rewrite !parmed_rarmed, (step_pget s e s' p Hstep).
+  destruct e as [q v|q|src dst|c]; [| | |auto].
+  - destruct (decide (p = q)) as [->|_]; [eauto|auto].
+  - destruct (decide (p = q)) as [->|_]; [|auto]. destruct (pchg s q); [|auto].
+    unfold rarmed. simpl. discriminate.
+  - destruct (decide (p = dst)) as [->|_]; [|auto]. destruct (plink s src dst) as [|m rest]; [auto|].
+    unfold pdel_peer. destruct (bool_decide (par (pget s dst) = Some m)); [auto|].
+    unfold rarmed. simpl. rewrite bool_decide_eq_true_2 by reflexivity. discriminate.
+Qed.
+Print Assumptions armed_only_by_set.
+
+(* THEOREM 2a: the announcing system of the receiver stays silent after a delivery, unless the
+   receiver had a local change of its own waiting *)
+Theorem deliver_no_echo s src dst s1 :
+  pstep s (PDeliver src dst) = Some s1 -> parmed s dst = false -> psent_by s1 (PAnnounce dst) = 0.
+Proof.
+  intros Hstep Hna. destruct (Nat.eq_dec (psent_by s1 (PAnnounce dst)) 0) as [H|H]; [exact H|].
+  apply sends_only_if_armed in H.
+  destruct (armed_only_by_set _ _ _ _ Hstep H) as [Ha|[u Hu]]; [congruence|discriminate].
+Qed.
+Print Assumptions deliver_no_echo.
+
+Corollary deliver_no_echo_flag_down s src dst s1 :
+  pstep s (PDeliver src dst) = Some s1 -> pchg s dst = false -> psent_by s1 (PAnnounce dst) = 0.
+Proof. intros Hstep Hc. apply (deliver_no_echo s src dst s1 Hstep). unfold parmed. rewrite Hc. reflexivity. Qed.
+
+(* a local set_parent between a delivery that applied u and the next announcement is announced
+   iff it gives a parent different from u: a different value is never swallowed *)
+Lemma set_after_apply_announced s p u v s1 :
+  ptok s p = Some u -> pstep s (PSet p v) = Some s1 ->
+  psent_by s1 (PAnnounce p) = if bool_decide (v = u) then 0 else length (pdsts s1 p).
+Proof.
+  intros Ht Hstep. unfold psent_by, pchg, ptok in *. rewrite (step_pget _ _ _ p Hstep).
+  destruct (decide (p = p)) as [_|Hn]; [|contradiction]. simpl. unfold pann_msg. simpl. rewrite Ht.
+  destruct (decide (v = u)) as [->|Hne].
+  - rewrite !bool_decide_eq_true_2 by reflexivity. reflexivity.
+  - rewrite !bool_decide_eq_false_2 by congruence. simpl. lia.
+Qed.
+
+(* THEOREM 2b: from a state where no peer is armed, NO run of announce / deliver events (any
+   schedule, any length) originates a message: everything that is sent is a relay by the host *)
+Theorem no_echo s tr s' :
+  (forall p, parmed s p = false) -> Forall drain_event tr -> prun s tr = Some s' ->
+  (forall p, parmed s' p = false) /\ ptotal_announced s tr = 0.
+Proof.
+  intros Hna Hd. revert s Hna. induction Hd as [|e tr He Hd IH]; intros s Hna Hrun; simpl in *.
+  - injection Hrun as <-. auto.
+  - destruct (pstep s e) as [s1|] eqn:Hs; [|discriminate].
+    assert (Hna1 : forall p, parmed s1 p = false).
+    { intros p. destruct (parmed s1 p) eqn:Ha; [|reflexivity].
+      destruct (armed_only_by_set _ _ _ _ Hs Ha) as [H|[u ->]]; [rewrite Hna in H; discriminate|contradiction]. }
+    destruct (IH s1 Hna1 Hrun) as [Hfin Hz]. split; [exact Hfin|]. rewrite Hz.
+    destruct e as [p u|p|src dst|c]; simpl; try reflexivity.
+    destruct (Nat.eq_dec (psent_by s (PAnnounce p)) 0) as [H|H]; [simpl in H; rewrite H; reflexivity|].
+    apply sends_only_if_armed in H. rewrite Hna in H. discriminate.
+Qed.
+Print Assumptions no_echo.
+
+(* THEOREM 2c (histories): whenever a peer is armed, the parent it is about to announce was given by
+   a local set_parent on that peer, and the peer's announcing system has not run since *)
+Definition resets (p : peer) (e : pevent) : Prop :=
+  match e with PSet q _ | PAnnounce q => q = p | _ => False end.
+
+Theorem C09_announce_has_local_cause s0 tr s p :
+  prun s0 tr = Some s -> parmed s p = true ->
+  parmed s0 p = true \/
+  exists tr1 u tr2, tr = tr1 ++ PSet p u :: tr2 /\ ppar s p = Some u /\ Forall (fun e => ~ resets p e) tr2.
+Proof.
+  revert s. induction tr as [|e tr IH] using rev_ind; intros s Hrun Ha.
+  - simpl in Hrun. injection Hrun as <-. left. exact Ha.
+  - rewrite prun_app in Hrun. destruct (prun s0 tr) as [s1|] eqn:Hr1; [|discriminate].
+    simpl in Hrun. destruct (pstep s1 e) as [s2|] eqn:Hs; [|discriminate]. injection Hrun as ->.
+    destruct (armed_only_by_set _ _ _ _ Hs Ha) as [Ha1|[u ->]].
+    + (* e did not arm p: it is not a reset of p (a reset would have disarmed it or is a PSet) *)
+      assert (Hkeep : (exists u, e = PSet p u) \/ (~ resets p e /\ pget s p = pget s1 p)).
+      { pose proof (step_pget s1 e s p Hs) as Hg. rewrite parmed_rarmed in Ha.
+        destruct e as [q v|q|src dst|c]; simpl.
+        - destruct (decide (p = q)) as [->|Hne]; [left; eauto|right; split; [congruence|exact Hg]].
+        - right. destruct (decide (p = q)) as [->|Hne]; [|split; [congruence|exact Hg]].
+          destruct (pchg s1 q) eqn:Hc.
+          + rewrite Hg in Ha. unfold rarmed in Ha. simpl in Ha. discriminate.
+          + rewrite parmed_rarmed in Ha1. unfold rarmed in Ha1. unfold pchg in Hc. rewrite Hc in Ha1. discriminate.
+        - right. split; [tauto|]. destruct (decide (p = dst)) as [->|Hne]; [|exact Hg].
+          destruct (plink s1 src dst) as [|m rest]; [exact Hg|]. rewrite Hg. unfold pdel_peer.
+          destruct (bool_decide (par (pget s1 dst) = Some m)) eqn:Hb; [reflexivity|].
+          rewrite Hg in Ha. unfold pdel_peer in Ha. rewrite Hb in Ha. unfold rarmed in Ha. simpl in Ha.
+          rewrite bool_decide_eq_true_2 in Ha by reflexivity. discriminate.
+        - right. split; [tauto|exact Hg]. }
+      destruct Hkeep as [[u ->]|[Hnr Hsame]].
+      * right. exists tr, u, []. split; [reflexivity|]. split; [|constructor].
+        unfold ppar. rewrite (step_pget _ _ _ p Hs). destruct (decide (p = p)); [reflexivity|contradiction].
+      * destruct (IH s1 eq_refl Ha1) as [H0|(tr1 & u & tr2 & -> & Hpar & Hall)]; [left; exact H0|].
+        right. exists tr1, u, (tr2 ++ [e]). split; [rewrite <- app_assoc; reflexivity|].
+        split; [unfold ppar in *; rewrite Hsame; exact Hpar|].
+        apply Forall_app. split; [exact Hall|constructor; [exact Hnr|constructor]].
+    + right. exists tr, u, []. split; [reflexivity|]. split; [|constructor].
+      unfold ppar. rewrite (step_pget _ _ _ p Hs). destruct (decide (p = p)); [reflexivity|contradiction].
+Qed.
+Print Assumptions C09_announce_has_local_cause.
+
+Lemma pinit_unarmed n p : parmed (pinit n) p = false.
+Proof. rewrite parmed_rarmed, pinit_pget. reflexivity. Qed.
+
+(* non-vacuity: after client 2 applied the relayed parent its announcing system is silent, while
+   client 1 (armed by its own set_parent) announces; a peer that re-parents locally after applying a
+   link does announce *)
+Example no_echo_nonvacuous :
+  (fun s => (parmed s <$> [0; 1; 2]%N, psent_by s (PAnnounce 2%N), psent_by s (PAnnounce 0%N))) <$>
+     prun (pinit 2) [PSet 1 7; PAnnounce 1; PDeliver 1 0; PDeliver 0 2]%N
+  = Some ([false; false; false], 0, 0) /\
+  (fun s => (parmed s 1%N, psent_by s (PAnnounce 1%N))) <$> prun (pinit 2) [PSet 1 7]%N = Some (true, 1) /\
+  (fun s => (parmed s 2%N, psent_by s (PAnnounce 2%N))) <$>
+     prun (pinit 2) [PSet 1 7; PAnnounce 1; PDeliver 1 0; PDeliver 0 2; PSet 2 8]%N = Some (true, 1) /\
+  (fun s => (parmed s 2%N, psent_by s (PAnnounce 2%N))) <$>
+     prun (pinit 2) [PSet 1 7; PAnnounce 1; PDeliver 1 0; PDeliver 0 2; PSet 2 7]%N = Some (false, 0).
 Proof. vm_compute. auto. Qed.
 
 (* ================================================================================================
-   Part 5: the invariant of an exchange towards parent u
-   [Ph u s]: every message in flight carries u, a raised flag means the peer already has u, and every
-   peer that does not have u yet is COVERED: something pending will reach it.
-     the host is covered by a client with a raised flag or a message on its way up;
-     a client c is covered by a message on its way down to c, by the host's raised flag, or by ANOTHER
-     client with a raised flag / a message on its way up (the host relays it to everybody but its sender).
-   Preserved by announce and deliver events, by re-parenting to u again (any peer), by safe joins.
+   Part 5: termination measure and traffic potential -- for ANY well-formed state, no premise on the
+   history (theorems 3 and 4)
    ================================================================================================ *)
 
-Definition pend (s : pstate) (c : peer) : Prop := pchg s c = true \/ plink s c host <> [].
-
-Record Ph (u : puid) (s : pstate) : Prop := {
-  ph_msgs : forall a b m, m ∈ plink s a b -> m = u;
-  ph_flag : forall p, pchg s p = true -> ppar s p = Some u;
-  ph_host : ppar s host = Some u \/ exists c, c ∈ pconn s /\ pend s c;
-  ph_cli : forall c, c ∈ pconn s ->
-    ppar s c = Some u \/ plink s host c <> [] \/ pchg s host = true \/
-    exists c', c' ∈ pconn s /\ c' <> c /\ pend s c'
-}.
-
-Definition Agree (s : pstate) (x : option puid) : Prop := forall p, ppeers s p -> ppar s p = x.
-
-Lemma app_ne_nil_l {A} (l k : list A) : l <> [] -> l ++ k <> [].
-Proof. destruct l; simpl; congruence. Qed.
-Lemma app_ne_nil_r {A} (l k : list A) : k <> [] -> l ++ k <> [].
-Proof. destruct l; simpl; [auto|discriminate]. Qed.
-
-Lemma ph_quiescent_agree u s : pquiescent s -> Ph u s -> Agree s (Some u).
+Lemma sumf_all_k f g l k : (forall c, c ∈ l -> g c = f c + k) -> sumf g l = sumf f l + k * length l.
 Proof.
-  intros Hq [_ _ Hh Hc] p [->|Hp].
-  - destruct Hh as [H|(c & _ & [H|H])]; [exact H| |].
-    + rewrite (quiescent_chg _ _ Hq) in H. discriminate.
-    + rewrite (quiescent_link _ _ _ Hq) in H. contradiction.
-  - destruct (Hc p Hp) as [H|[H|[H|(c' & _ & _ & [H|H])]]]; [exact H| | | |].
-    + rewrite (quiescent_link _ _ _ Hq) in H. contradiction.
-    + rewrite (quiescent_chg _ _ Hq) in H. discriminate.
-    + rewrite (quiescent_chg _ _ Hq) in H. discriminate.
-    + rewrite (quiescent_link _ _ _ Hq) in H. contradiction.
+  induction l as [|a l IH]; intros H; [simpl; lia|]. simpl.
+  rewrite (H a) by left. rewrite IH; [lia|]. intros c Hc. apply H. right. exact Hc.
 Qed.
 
-Lemma agree_quiescent_ph u s : pquiescent s -> Agree s (Some u) -> Ph u s.
+Lemma wsum_one f s s' p :
+  pwf s -> pconn s' = pconn s -> ppeers s p -> (forall q, q <> p -> pget s' q = pget s q) ->
+  wsum f s' + f (pget s p) = wsum f s + f (pget s' p).
 Proof.
-  intros Hq Ha. split.
-  - intros a b m Hm. rewrite (quiescent_link _ _ _ Hq) in Hm. inversion Hm.
-  - intros p Hp. rewrite (quiescent_chg _ _ Hq) in Hp. discriminate.
-  - left. apply Ha. left. reflexivity.
-  - intros c Hc. left. apply Ha. right. exact Hc.
+  intros Hwf Hc Hp Hsame. unfold wsum. rewrite Hc. destruct Hp as [->|Hp].
+  - rewrite (sumf_ext (fun c => f (pget s c)) (fun c => f (pget s' c))); [lia|].
+    intros c Hcc. simpl. rewrite Hsame; [reflexivity|]. eapply wf_conn_ne; eauto.
+  - rewrite (Hsame host) by (intros E; symmetry in E; revert E; eapply wf_conn_ne; eauto).
+    pose proof (sumf_one (fun c => f (pget s c)) (fun c => f (pget s' c)) (pconn s) p (wf_nodup s Hwf) Hp) as H.
+    lapply H; [simpl; lia|]. intros c' _ Hne. simpl. rewrite Hsame by exact Hne. reflexivity.
 Qed.
 
-(* PSet from a quiescent state starts an exchange (whatever the peers had before) *)
-Lemma ph_set_quiescent s p u s' :
-  pwf s -> pquiescent s -> pstep s (PSet p u) = Some s' -> Ph u s'.
+Lemma wsum_same f s s' :
+  pconn s' = pconn s -> (forall q, pget s' q = pget s q) -> wsum f s' = wsum f s.
 Proof.
-  intros Hwf Hq Hstep. apply step_set in Hstep as (Hp & Hc & Hl & _ & Hpar & Hchg).
-  assert (Hlk : forall a b, plink s' a b = []).
-  { intros a b. unfold plink. rewrite Hl. apply (quiescent_link s a b Hq). }
-  apply (wf_exists s p Hwf) in Hp.
-  assert (Hpp : pchg s' p = true) by (rewrite Hchg; destruct (decide (p = p)); [reflexivity|contradiction]).
-  assert (Hpu : ppar s' p = Some u) by (rewrite Hpar; destruct (decide (p = p)); [reflexivity|contradiction]).
-  split.
-  - intros a b m Hm. rewrite Hlk in Hm. inversion Hm.
-  - intros q Hq'. rewrite Hchg in Hq'. rewrite Hpar. destruct (decide (q = p)); [reflexivity|].
-    rewrite (quiescent_chg _ _ Hq) in Hq'. discriminate.
-  - destruct Hp as [->|Hp]; [left; exact Hpu|]. right. exists p. rewrite Hc. split; [exact Hp|]. left. exact Hpp.
-  - intros c Hcc. rewrite Hc in Hcc. destruct (decide (c = p)) as [->|Hne]; [left; exact Hpu|].
-    destruct Hp as [->|Hp]; [right; right; left; exact Hpp|].
-    right. right. right. exists p. rewrite Hc. split; [exact Hp|]. split; [congruence|]. left. exact Hpp.
+  intros Hc Hsame. unfold wsum. rewrite Hc, Hsame. f_equal. apply sumf_ext. intros c _. rewrite Hsame. reflexivity.
 Qed.
 
-(* re-parenting to the SAME parent during the exchange is harmless, whoever does it *)
-Lemma ph_set_same s p u s' :
-  Ph u s -> pstep s (PSet p u) = Some s' -> Ph u s'.
+Lemma drain_step_conn s e s' : drain_event e -> pstep s e = Some s' -> pconn s' = pconn s.
 Proof.
-  intros [Hm Hf Hh Hcl] Hstep. apply step_set in Hstep as (_ & Hc & Hl & _ & Hpar & Hchg).
-  assert (Hlk : forall a b, plink s' a b = plink s a b) by (intros a b; unfold plink; rewrite Hl; reflexivity).
-  assert (Hmono : forall q, pchg s q = true -> pchg s' q = true).
-  { intros q Hq. rewrite Hchg. destruct (decide (q = p)); [reflexivity|exact Hq]. }
-  assert (Hpu : forall q, ppar s q = Some u -> ppar s' q = Some u).
-  { intros q Hq. rewrite Hpar. destruct (decide (q = p)); [reflexivity|exact Hq]. }
-  assert (Hpend : forall c, pend s c -> pend s' c).
-  { intros c [H|H]; [left; apply Hmono; exact H|right; rewrite Hlk; exact H]. }
-  split.
-  - intros a b m. rewrite Hlk. apply Hm.
-  - intros q Hq. rewrite Hchg in Hq. rewrite Hpar. destruct (decide (q = p)); [reflexivity|apply Hf; exact Hq].
-  - destruct Hh as [H|(c & Hcc & H)]; [left; apply Hpu; exact H|].
-    right. exists c. rewrite Hc. split; [exact Hcc|apply Hpend; exact H].
-  - intros c Hcc. rewrite Hc in Hcc. destruct (Hcl c Hcc) as [H|[H|[H|(c' & Hc' & Hne & H)]]].
-    + left. apply Hpu. exact H.
-    + right. left. rewrite Hlk. exact H.
-    + right. right. left. apply Hmono. exact H.
-    + right. right. right. exists c'. rewrite Hc. split; [exact Hc'|]. split; [exact Hne|apply Hpend; exact H].
+  intros He Hstep. destruct e as [p x|p|src dst|c]; simpl in He; try contradiction; simpl in Hstep.
+  - destruct (pp s !! p) as [y|]; [|discriminate]. destruct (changed y); injection Hstep as <-; reflexivity.
+  - destruct (plink s src dst); [discriminate|]. destruct (pp s !! dst); [|discriminate].
+    injection Hstep as <-. reflexivity.
 Qed.
 
-Lemma ph_announce u s p s' :
-  pwf s -> Ph u s -> pstep s (PAnnounce p) = Some s' -> Ph u s'.
+Lemma pdsts_client s p : p <> host -> pdsts s p = [host].
+Proof. intros H. unfold pdsts. destruct (p =? host)%N eqn:E; [apply N.eqb_eq in E; contradiction|reflexivity]. Qed.
+
+(* the link counters after an effective announce / deliver event *)
+Lemma cnt_announce_host s s' :
+  pwf s -> pchg s host = true -> pstep s (PAnnounce host) = Some s' ->
+  pups s' = pups s /\ pdowns s' = pdowns s + length (pann_msg (pget s host)) * length (pconn s).
 Proof.
-  intros Hwf HP Hstep. pose proof HP as [Hm Hf Hh Hcl].
-  apply step_announce in Hstep as (Hp & [(_ & ->)|(Hpc & Hc & _ & Hpar & Hchg & Hl)]); [exact HP| |apply wf_nodup; exact Hwf].
-  apply (wf_exists s p Hwf) in Hp.
-  pose proof (Hf p Hpc) as Hpu. rewrite Hpu in Hl. simpl in Hl.
-  assert (Hlmono : forall a b, plink s a b <> [] -> plink s' a b <> []).
-  { intros a b H. rewrite Hl. destruct (decide _); [apply app_ne_nil_l|]; exact H. }
-  assert (Hpend : forall c, c <> host -> pend s c -> pend s' c).
-  { intros c Hne [H|H]; [|right; apply Hlmono; exact H].
-    destruct (decide (c = p)) as [->|Hcp].
-    - right. rewrite Hl. destruct (decide (p = p /\ host ∈ pdsts s p)) as [_|Hn]; [apply app_ne_nil_r; discriminate|].
-      exfalso. apply Hn. split; [reflexivity|]. unfold pdsts.
-      destruct (p =? host)%N eqn:Hph; [apply N.eqb_eq in Hph; contradiction|]. apply elem_of_list_singleton. reflexivity.
-    - left. rewrite Hchg. destruct (decide (c = p)); [contradiction|exact H]. }
-  split.
-  - intros a b m. rewrite Hl. destruct (decide _); [|apply Hm].
-    intros H. apply elem_of_app in H as [H|H]; [eapply Hm; exact H|]. apply elem_of_list_singleton in H. exact H.
-  - intros q Hq. rewrite Hchg in Hq. rewrite Hpar. destruct (decide (q = p)); [discriminate|apply Hf; exact Hq].
-  - destruct Hh as [H|(c & Hcc & H)]; [left; rewrite Hpar; exact H|].
-    right. exists c. rewrite Hc. split; [exact Hcc|]. apply Hpend; [|exact H]. eapply wf_conn_ne; eauto.
-  - intros c Hcc. rewrite Hc in Hcc. destruct (Hcl c Hcc) as [H|[H|[H|(c' & Hc' & Hne & H)]]].
-    + left. rewrite Hpar. exact H.
-    + right. left. apply Hlmono. exact H.
-    + destruct (decide (p = host)) as [->|Hph].
-      * right. left. rewrite Hl. destruct (decide (host = host /\ c ∈ pdsts s host)) as [_|Hn]; [apply app_ne_nil_r; discriminate|].
-        exfalso. apply Hn. split; [reflexivity|exact Hcc].
-      * right. right. left. rewrite Hchg. destruct (decide (host = p)); [congruence|exact H].
-    + right. right. right. exists c'. rewrite Hc. split; [exact Hc'|]. split; [exact Hne|].
-      apply Hpend; [|exact H]. eapply wf_conn_ne; eauto.
-Qed.
-
-Lemma ph_deliver u s src dst s' :
-  pwf s -> Ph u s -> pstep s (PDeliver src dst) = Some s' -> Ph u s'.
-Proof.
-  intros Hwf HP Hstep. pose proof HP as [Hm Hf Hh Hcl].
-  apply step_deliver in Hstep as (m & rest & Hl0 & Hd & Hc & _ & Hpar & Hchg & Hl); [|apply wf_nodup; exact Hwf].
-  assert (m = u) as -> by (apply (Hm src dst); rewrite Hl0; left).
-  assert (Hends : (src = host /\ dst ∈ pconn s) \/ (dst = host /\ src ∈ pconn s)).
-  { apply (wf_link s src dst Hwf). rewrite Hl0. discriminate. }
-  assert (Hcmono : forall q, pchg s q = true -> pchg s' q = true).
-  { intros q Hq. rewrite Hchg. destruct (decide (q = dst)) as [->|_]; [rewrite Hq; reflexivity|exact Hq]. }
-  assert (Hpu : forall q, ppar s q = Some u -> ppar s' q = Some u).
-  { intros q Hq. rewrite Hpar. destruct (decide (q = dst)); [reflexivity|exact Hq]. }
-  assert (Hlother : forall a b, (a, b) <> (src, dst) -> plink s a b <> [] -> plink s' a b <> []).
-  { intros a b Hne H. rewrite Hl. destruct (decide ((a, b) = (src, dst))); [contradiction|]. apply app_ne_nil_l. exact H. }
-  assert (Hpend : forall c, c <> src -> pend s c -> pend s' c).
-  { intros c Hne [H|H]; [left; apply Hcmono; exact H|]. right. apply Hlother; [congruence|exact H]. }
-  split.
-  - intros a b x. rewrite Hl. intros H. apply elem_of_app in H as [H|H].
-    + destruct (decide ((a, b) = (src, dst))) as [Heq|_]; [|eapply Hm; exact H].
-      apply (Hm src dst). rewrite Hl0. right. exact H.
-    + destruct (decide _); [|inversion H]. apply elem_of_list_singleton in H. exact H.
-  - intros q Hq. rewrite Hpar. destruct (decide (q = dst)) as [->|Hne]; [reflexivity|].
-    apply Hf. rewrite Hchg in Hq. destruct (decide (q = dst)); [contradiction|exact Hq].
-  - destruct Hends as [[-> Hdc]|[-> Hsc]].
-    + (* down to a client: the host and everything travelling up are untouched *)
-      destruct Hh as [H|(c & Hcc & H)]; [left; apply Hpu; exact H|].
-      right. exists c. rewrite Hc. split; [exact Hcc|]. apply Hpend; [|exact H]. eapply wf_conn_ne; eauto.
-    + left. rewrite Hpar. destruct (decide (host = host)); [reflexivity|contradiction].
-  - intros c Hcc. rewrite Hc in Hcc. pose proof (wf_conn_ne s c Hwf Hcc) as Hch.
-    destruct Hends as [[-> Hdc]|[-> Hsc]].
-    + (* host -> dst *)
-      destruct (decide (c = dst)) as [->|Hne].
-      { left. rewrite Hpar. destruct (decide (dst = dst)); [reflexivity|contradiction]. }
-      destruct (Hcl c Hcc) as [H|[H|[H|(c' & Hc' & Hne' & H)]]].
-      * left. apply Hpu. exact H.
-      * right. left. apply Hlother; [congruence|exact H].
-      * right. right. left. apply Hcmono. exact H.
-      * right. right. right. exists c'. rewrite Hc. split; [exact Hc'|]. split; [exact Hne'|].
-        apply Hpend; [|exact H]. eapply wf_conn_ne; eauto.
-    + (* src -> host: relayed to every client but src *)
-      destruct (decide (c = src)) as [->|Hne].
-      * destruct (Hcl src Hcc) as [H|[H|[H|(c' & Hc' & Hne' & H)]]].
-        -- left. apply Hpu. exact H.
-        -- right. left. apply Hlother; [congruence|exact H].
-        -- right. right. left. apply Hcmono. exact H.
-        -- right. right. right. exists c'. rewrite Hc. split; [exact Hc'|]. split; [exact Hne'|].
-           apply Hpend; [exact Hne'|exact H].
-      * right. left. rewrite Hl. apply app_ne_nil_r.
-        destruct (decide (host = host /\ host = host /\ c ∈ pothers src (pconn s))) as [_|Hn]; [discriminate|].
-        exfalso. apply Hn. split; [reflexivity|]. split; [reflexivity|]. apply elem_of_pothers. auto.
-Qed.
-
-(* a join while the host has no parent yet, or already has u *)
-Lemma ph_join u s c s' :
-  pwf s -> Ph u s -> ppar s host = None \/ ppar s host = Some u ->
-  pstep s (PJoin c) = Some s' -> Ph u s'.
-Proof.
-  intros Hwf HP Hsafe Hstep. pose proof HP as [Hm Hf Hh Hcl].
-  pose proof (join_par s c s') as Hpar. pose proof (join_chg s c s') as Hchg.
-  specialize (fun q => Hpar q Hstep). specialize (fun q => Hchg q Hstep).
-  apply step_join in Hstep as (Hch & Hcn & Hnone & Hc & _ & _ & Hl).
-  assert (Hlmono : forall a b, plink s a b <> [] -> plink s' a b <> []).
-  { intros a b H. rewrite Hl. destruct (decide _) as [Heq|_]; [|exact H]. inversion Heq; subst. apply app_ne_nil_l. exact H. }
-  assert (Hpend : forall c', pend s c' -> pend s' c').
-  { intros c' [H|H]; [left; rewrite Hchg; exact H|right; apply Hlmono; exact H]. }
-  assert (Hcabs : ~ ppeers s c).
-  { intros H. apply (wf_exists s c Hwf) in H. rewrite Hnone in H. destruct H; discriminate. }
-  split.
-  - intros a b m. rewrite Hl. destruct (decide _) as [Heq|_]; [|apply Hm].
-    intros H. apply elem_of_app in H as [H|H]; [eapply Hm; exact H|].
-    destruct Hsafe as [Hs|Hs]; rewrite Hs in H; simpl in H; [inversion H|]. apply elem_of_list_singleton in H. exact H.
-  - intros q. rewrite Hchg, Hpar. apply Hf.
-  - rewrite Hpar. destruct Hh as [H|(c' & Hc' & H)]; [left; exact H|].
-    right. exists c'. rewrite Hc. split; [apply elem_of_app; left; exact Hc'|apply Hpend; exact H].
-  - intros c0 Hc0. rewrite Hc in Hc0. apply elem_of_app in Hc0 as [Hc0|Hc0].
-    + destruct (Hcl c0 Hc0) as [H|[H|[H|(c' & Hc' & Hne & H)]]].
-      * left. rewrite Hpar. exact H.
-      * right. left. apply Hlmono. exact H.
-      * right. right. left. rewrite Hchg. exact H.
-      * right. right. right. exists c'. rewrite Hc. split; [apply elem_of_app; left; exact Hc'|].
-        split; [exact Hne|apply Hpend; exact H].
-    + apply elem_of_list_singleton in Hc0. subst c0.
-      destruct Hsafe as [Hs|Hs].
-      * (* no snapshot: the host itself is still waiting for u, from a client that is not c *)
-        destruct Hh as [H|(c' & Hc' & H)]; [congruence|].
-        right. right. right. exists c'. rewrite Hc. split; [apply elem_of_app; left; exact Hc'|].
-        split; [|apply Hpend; exact H]. intros ->. apply Hcabs. right. exact Hc'.
-      * right. left. rewrite Hl. destruct (decide ((host, c) = (host, c))) as [_|Hn]; [|contradiction].
-        rewrite Hs. apply app_ne_nil_r. discriminate.
-Qed.
-
-(* ================================================================================================
-   Part 6: termination measure and traffic potential of an exchange
-   ================================================================================================ *)
-
-Lemma pcnt1_flag_down u s s' p :
-  ppar s' p = ppar s p -> pchg s p = true -> pchg s' p = false -> pcnt1 u s' p + 1 = pcnt1 u s p.
-Proof. intros Hp H1 H2. unfold pcnt1. rewrite Hp, H1, H2. lia. Qed.
-
-Lemma pcnt1_same u s s' p : ppar s' p = ppar s p -> pchg s' p = pchg s p -> pcnt1 u s' p = pcnt1 u s p.
-Proof. intros Hp Hc. unfold pcnt1. rewrite Hp, Hc. reflexivity. Qed.
-
-Lemma pcnt1_apply u s s' p :
-  ppar s' p = Some u -> pchg s' p = pchg s p || negb (bool_decide (ppar s p = Some u)) ->
-  pcnt1 u s' p <= pcnt1 u s p.
-Proof.
-  intros Hp Hc. unfold pcnt1. rewrite Hp, Hc. rewrite bool_decide_eq_true_2 by reflexivity.
-  destruct (bool_decide (ppar s p = Some u)); destruct (pchg s p); simpl; lia.
-Qed.
-
-(* what one effective announce / deliver event does to the three counters *)
-Lemma count_announce_host u s s' :
-  pwf s -> Ph u s -> pchg s host = true -> pstep s (PAnnounce host) = Some s' ->
-  pconn s' = pconn s /\ pcnt u s' + 1 = pcnt u s /\ pups s' = pups s /\ pdowns s' = pdowns s + length (pconn s).
-Proof.
-  intros Hwf HP Hflag Hstep. pose proof (ph_flag u s HP host Hflag) as Hpu.
-  apply step_announce in Hstep as (_ & [(Hn & _)|(_ & Hc & _ & Hpar & Hchg & Hl)]); [congruence| |apply wf_nodup; exact Hwf].
-  rewrite Hpu in Hl. simpl in Hl. split; [exact Hc|].
-  unfold pcnt, pups, pdowns. rewrite Hc. split; [|split].
-  - rewrite (sumf_ext (pcnt1 u s) (pcnt1 u s')).
-    + rewrite <- (pcnt1_flag_down u s s' host); [lia|apply Hpar|exact Hflag|].
-      rewrite Hchg. destruct (decide (host = host)); [reflexivity|contradiction].
-    + intros c Hcc. apply pcnt1_same; [apply Hpar|]. rewrite Hchg.
-      destruct (decide (c = host)) as [->|_]; [|reflexivity]. exfalso. eapply wf_host; eauto.
+  intros Hwf Hflag Hstep.
+  pose proof (drain_step_conn s (PAnnounce host) s' I Hstep) as Hc.
+  apply step_announce in Hstep as (_ & [(Hn & _)|(_ & _ & _ & _ & Hl)]); [congruence| |apply wf_nodup; exact Hwf].
+  unfold pups, pdowns. rewrite Hc. split.
   - apply sumf_ext. intros c Hcc. rewrite Hl. destruct (decide (c = host /\ _)) as [[-> _]|_]; [|reflexivity].
     exfalso. eapply wf_host; eauto.
-  - apply sumf_all1. intros c Hcc. rewrite Hl.
+  - apply sumf_all_k. intros c Hcc. rewrite Hl.
     destruct (decide (host = host /\ c ∈ pdsts s host)) as [_|Hn]; [rewrite app_length; reflexivity|].
     exfalso. apply Hn. split; [reflexivity|exact Hcc].
 Qed.
 
-Lemma count_announce_client u s p s' :
-  pwf s -> Ph u s -> p ∈ pconn s -> pchg s p = true -> pstep s (PAnnounce p) = Some s' ->
-  pconn s' = pconn s /\ pcnt u s' + 1 = pcnt u s /\ pups s' = pups s + 1 /\ pdowns s' = pdowns s.
+Lemma cnt_announce_client s p s' :
+  pwf s -> p ∈ pconn s -> pchg s p = true -> pstep s (PAnnounce p) = Some s' ->
+  pups s' = pups s + length (pann_msg (pget s p)) /\ pdowns s' = pdowns s.
 Proof.
-  intros Hwf HP Hpc Hflag Hstep. pose proof (ph_flag u s HP p Hflag) as Hpu.
+  intros Hwf Hpc Hflag Hstep.
+  pose proof (drain_step_conn s (PAnnounce p) s' I Hstep) as Hc.
   pose proof (wf_conn_ne s p Hwf Hpc) as Hph. pose proof (wf_nodup s Hwf) as Hnd.
-  apply step_announce in Hstep as (_ & [(Hn & _)|(_ & Hc & _ & Hpar & Hchg & Hl)]); [congruence| |exact Hnd].
-  rewrite Hpu in Hl. simpl in Hl. split; [exact Hc|].
-  assert (Hdst : pdsts s p = [host]).
-  { unfold pdsts. destruct (p =? host)%N eqn:E; [apply N.eqb_eq in E; contradiction|reflexivity]. }
-  unfold pcnt, pups, pdowns. rewrite Hc. split; [|split].
-  - rewrite (pcnt1_same u s s' host); [|apply Hpar|rewrite Hchg; destruct (decide (host = p)); [congruence|reflexivity]].
-    pose proof (sumf_one (pcnt1 u s) (pcnt1 u s') (pconn s) p Hnd Hpc) as H. lapply H.
-    + intros H'. rewrite <- (pcnt1_flag_down u s s' p) in H'; [lia|apply Hpar|exact Hflag|].
-      rewrite Hchg. destruct (decide (p = p)); [reflexivity|contradiction].
-    + intros c' _ Hne. apply pcnt1_same; [apply Hpar|]. rewrite Hchg. destruct (decide (c' = p)); [contradiction|reflexivity].
+  apply step_announce in Hstep as (_ & [(Hn & _)|(_ & _ & _ & _ & Hl)]); [congruence| |exact Hnd].
+  rewrite (pdsts_client s p Hph) in Hl.
+  unfold pups, pdowns. rewrite Hc. split.
   - pose proof (sumf_one (fun c => length (plink s c host)) (fun c => length (plink s' c host)) (pconn s) p Hnd Hpc) as H.
     lapply H.
-    + intros H'. rewrite (Hl p host) in H'. rewrite Hdst in H'.
-      destruct (decide (p = p /\ host ∈ [host])) as [_|Hn]; [rewrite app_length in H'; simpl in H'; lia|].
+    + intros H'. rewrite (Hl p host) in H'.
+      destruct (decide (p = p /\ host ∈ [host])) as [_|Hn]; [rewrite app_length in H'; lia|].
       exfalso. apply Hn. split; [reflexivity|apply elem_of_list_singleton; reflexivity].
     + intros c' _ Hne. simpl. rewrite Hl. destruct (decide (c' = p /\ _)) as [[-> _]|_]; [contradiction|reflexivity].
   - apply sumf_ext. intros c Hcc. rewrite Hl. destruct (decide (host = p /\ _)) as [[E _]|_]; [congruence|reflexivity].
 Qed.
 
-Lemma count_deliver_up u s src s' :
-  pwf s -> Ph u s -> src ∈ pconn s -> pstep s (PDeliver src host) = Some s' ->
-  pconn s' = pconn s /\ pcnt u s' <= pcnt u s /\ pups s' + 1 = pups s /\ pdowns s' + 1 = pdowns s + length (pconn s).
+Lemma cnt_deliver_up s src s' :
+  pwf s -> src ∈ pconn s -> pstep s (PDeliver src host) = Some s' ->
+  pups s' + 1 = pups s /\ pdowns s' + 1 = pdowns s + length (pconn s).
 Proof.
-  intros Hwf HP Hsc Hstep. pose proof (wf_conn_ne s src Hwf Hsc) as Hsh. pose proof (wf_nodup s Hwf) as Hnd.
-  apply step_deliver in Hstep as (m & rest & Hl0 & _ & Hc & _ & Hpar & Hchg & Hl); [|exact Hnd].
-  assert (m = u) as -> by (apply (ph_msgs u s HP src host); rewrite Hl0; left).
-  split; [exact Hc|]. unfold pcnt, pups, pdowns. rewrite Hc. split; [|split].
-  - rewrite (sumf_ext (pcnt1 u s) (pcnt1 u s')).
-    + assert (pcnt1 u s' host <= pcnt1 u s host); [|lia]. apply pcnt1_apply.
-      * rewrite Hpar. destruct (decide (host = host)); [reflexivity|contradiction].
-      * rewrite Hchg. destruct (decide (host = host)); [reflexivity|contradiction].
-    + intros c Hcc. pose proof (wf_conn_ne s c Hwf Hcc) as Hch. apply pcnt1_same.
-      * rewrite Hpar. destruct (decide (c = host)); [contradiction|reflexivity].
-      * rewrite Hchg. destruct (decide (c = host)); [contradiction|reflexivity].
+  intros Hwf Hsc Hstep. pose proof (drain_step_conn s (PDeliver src host) s' I Hstep) as Hc.
+  pose proof (wf_conn_ne s src Hwf Hsc) as Hsh. pose proof (wf_nodup s Hwf) as Hnd.
+  apply step_deliver in Hstep as (m & rest & Hl0 & _ & _ & _ & _ & Hl); [|exact Hnd].
+  unfold pups, pdowns. rewrite Hc. split.
   - pose proof (sumf_one (fun c => length (plink s c host)) (fun c => length (plink s' c host)) (pconn s) src Hnd Hsc) as H.
     lapply H.
     + intros H'. rewrite (Hl src host), Hl0 in H'.
@@ -863,26 +831,16 @@ Proof.
       exfalso. apply Hn. split; [reflexivity|]. split; [reflexivity|]. apply elem_of_pothers. auto.
 Qed.
 
-Lemma count_deliver_down u s dst s' :
-  pwf s -> Ph u s -> dst ∈ pconn s -> pstep s (PDeliver host dst) = Some s' ->
-  pconn s' = pconn s /\ pcnt u s' <= pcnt u s /\ pups s' = pups s /\ pdowns s' + 1 = pdowns s.
+Lemma cnt_deliver_down s dst s' :
+  pwf s -> dst ∈ pconn s -> pstep s (PDeliver host dst) = Some s' ->
+  pups s' = pups s /\ pdowns s' + 1 = pdowns s.
 Proof.
-  intros Hwf HP Hdc Hstep. pose proof (wf_conn_ne s dst Hwf Hdc) as Hdh. pose proof (wf_nodup s Hwf) as Hnd.
-  apply step_deliver in Hstep as (m & rest & Hl0 & _ & Hc & _ & Hpar & Hchg & Hl); [|exact Hnd].
-  assert (m = u) as -> by (apply (ph_msgs u s HP host dst); rewrite Hl0; left).
+  intros Hwf Hdc Hstep. pose proof (drain_step_conn s (PDeliver host dst) s' I Hstep) as Hc.
+  pose proof (wf_conn_ne s dst Hwf Hdc) as Hdh. pose proof (wf_nodup s Hwf) as Hnd.
+  apply step_deliver in Hstep as (m & rest & Hl0 & _ & _ & _ & _ & Hl); [|exact Hnd].
   assert (Hnorelay : forall a b, plink s' a b = if decide ((a, b) = (host, dst)) then rest else plink s a b).
   { intros a b. rewrite Hl. destruct (decide (dst = host /\ _)) as [[E _]|_]; [contradiction|]. apply app_nil_r. }
-  split; [exact Hc|]. unfold pcnt, pups, pdowns. rewrite Hc. split; [|split].
-  - rewrite (pcnt1_same u s s' host).
-    + pose proof (sumf_one (pcnt1 u s) (pcnt1 u s') (pconn s) dst Hnd Hdc) as H. lapply H.
-      * intros H'. assert (pcnt1 u s' dst <= pcnt1 u s dst); [|lia]. apply pcnt1_apply.
-        -- rewrite Hpar. destruct (decide (dst = dst)); [reflexivity|contradiction].
-        -- rewrite Hchg. destruct (decide (dst = dst)); [reflexivity|contradiction].
-      * intros c' _ Hne. apply pcnt1_same.
-        -- rewrite Hpar. destruct (decide (c' = dst)); [contradiction|reflexivity].
-        -- rewrite Hchg. destruct (decide (c' = dst)); [contradiction|reflexivity].
-    + rewrite Hpar. destruct (decide (host = dst)); [congruence|reflexivity].
-    + rewrite Hchg. destruct (decide (host = dst)); [congruence|reflexivity].
+  unfold pups, pdowns. rewrite Hc. split.
   - apply sumf_ext. intros c Hcc. rewrite Hnorelay. destruct (decide ((c, host) = (host, dst))) as [E|_]; [|reflexivity].
     congruence.
   - pose proof (sumf_one (fun c => length (plink s host c)) (fun c => length (plink s' host c)) (pconn s) dst Hnd Hdc) as H.
@@ -892,77 +850,125 @@ Proof.
     + intros c' _ Hne. simpl. rewrite Hnorelay. destruct (decide ((host, c') = (host, dst))) as [E|_]; [congruence|reflexivity].
 Qed.
 
-(* one announce / deliver event of an exchange: a no-op, or the measure strictly decreases and the
-   messages it sends are paid for by the potential *)
-Lemma drain_step_measure u s e s' :
-  pwf s -> Ph u s -> drain_event e -> pstep s e = Some s' ->
-  (effective s e = false /\ s' = s /\ psent_by s e = 0) \/
-  (effective s e = true /\ pmeasure u s' < pmeasure u s /\ psent_by s e + ppotential u s' <= ppotential u s).
+(* the weights of a peer record after its own announcement / a delivery *)
+Lemma pw1_announce n x :
+  changed x = true ->
+  pw1 n (pann_peer x) = 0 /\ 1 <= pw1 n x /\ length (pann_msg x) <= 1 /\
+  (length (pann_msg x) = 1 -> pw1 n x = 2 * n + 1).
 Proof.
-  intros Hwf HP He Hstep. pose proof (wf_nodup s Hwf) as Hnd.
+  intros Hc. unfold pw1, pann_peer, pann_msg. rewrite Hc. simpl.
+  split; [reflexivity|]. split; [destruct (bool_decide _); lia|].
+  destruct (par x) as [u|]; [|simpl; split; [lia|discriminate]].
+  destruct (decide (tok x = Some u)) as [Ht|Ht].
+  - rewrite (bool_decide_eq_true_2 _ Ht). simpl. split; [lia|discriminate].
+  - rewrite (bool_decide_eq_false_2 _ Ht). simpl. split; [lia|]. intros _.
+    rewrite bool_decide_eq_false_2 by congruence. reflexivity.
+Qed.
+
+Lemma parm1_announce x :
+  changed x = true -> parm1 (pann_peer x) = 0 /\ length (pann_msg x) <= parm1 x.
+Proof.
+  intros Hc. unfold parm1, rarmed, pann_peer, pann_msg. rewrite Hc. simpl. split; [reflexivity|].
+  destruct (par x) as [u|]; [|simpl; lia].
+  destruct (decide (tok x = Some u)) as [Ht|Ht].
+  - rewrite (bool_decide_eq_true_2 _ Ht). simpl. lia.
+  - rewrite (bool_decide_eq_false_2 _ Ht). rewrite bool_decide_eq_false_2 by congruence. simpl. lia.
+Qed.
+
+Lemma pw1_deliver n u x : pw1 n (pdel_peer u x) <= pw1 n x + 1.
+Proof.
+  unfold pdel_peer. destruct (bool_decide (par x = Some u)); [lia|].
+  unfold pw1. simpl. rewrite bool_decide_eq_true_2 by reflexivity.
+  destruct (changed x); [destruct (bool_decide _); lia|lia].
+Qed.
+
+Lemma parm1_deliver u x : parm1 (pdel_peer u x) <= parm1 x.
+Proof.
+  unfold pdel_peer. destruct (bool_decide (par x = Some u)); [lia|].
+  unfold parm1, rarmed. simpl. rewrite bool_decide_eq_true_2 by reflexivity. simpl. lia.
+Qed.
+
+(* ONE announce / deliver event, from ANY well-formed state: a no-op, or the measure strictly
+   decreases and the messages it sends are paid for by the potential *)
+Lemma drain_step_measure M s e s' :
+  pwf s -> length (pconn s) <= M -> drain_event e -> pstep s e = Some s' ->
+  (effective s e = false /\ s' = s /\ psent_by s e = 0) \/
+  (effective s e = true /\ pmeasure s' < pmeasure s /\ psent_by s e + ppotential M s' <= ppotential M s).
+Proof.
+  intros Hwf HM He Hstep. pose proof (wf_nodup s Hwf) as Hnd.
+  pose proof (drain_step_conn s e s' He Hstep) as Hc.
   destruct e as [p x|p|src dst|c]; simpl in He; try contradiction.
   - (* announce *)
     destruct (pchg s p) eqn:Hflag.
     + right. split; [exact Hflag|].
       assert (Hp : ppeers s p).
       { apply (wf_exists s p Hwf). unfold pchg, pget in Hflag. destruct (pp s !! p); [eauto|discriminate]. }
-      pose proof (ph_flag u s HP p Hflag) as Hpu.
-      unfold pmeasure, ppotential, psent_by. rewrite Hflag, Hpu. simpl length.
+      pose proof (step_pget s _ s' p Hstep) as Hgp. simpl in Hgp. rewrite Hflag in Hgp.
+      destruct (decide (p = p)) as [_|Hn]; [|contradiction].
+      assert (Hsame : forall q, q <> p -> pget s' q = pget s q).
+      { intros q Hq. rewrite (step_pget s _ s' q Hstep). simpl. destruct (decide (q = p)); [contradiction|reflexivity]. }
+      set (n := length (pconn s)) in *.
+      pose proof (wsum_one (pw1 n) s s' p Hwf Hc Hp Hsame) as HW.
+      pose proof (wsum_one parm1 s s' p Hwf Hc Hp Hsame) as HA.
+      rewrite Hgp in HW, HA.
+      destruct (pw1_announce n (pget s p) Hflag) as (Hw0 & Hw1 & Hm1 & Hm2).
+      destruct (parm1_announce (pget s p) Hflag) as (Ha0 & Ha1).
+      rewrite Hw0 in HW. rewrite Ha0 in HA.
+      unfold pmeasure, ppotential, psent_by. rewrite Hflag, Hc. fold n.
+      set (m := length (pann_msg (pget s p))) in *.
       destruct Hp as [->|Hp].
-      * destruct (count_announce_host u s s' Hwf HP Hflag Hstep) as (Hc & H1 & H2 & H3).
-        rewrite Hc, H2, H3. unfold pdsts. simpl. split; nia.
-      * destruct (count_announce_client u s p s' Hwf HP Hp Hflag Hstep) as (Hc & H1 & H2 & H3).
-        rewrite Hc, H2, H3. unfold pdsts.
-        destruct (p =? host)%N eqn:E; [apply N.eqb_eq in E; subst p; exfalso; eapply wf_host; eauto|].
-        assert (1 <= length (pconn s)) by (destruct (pconn s); [inversion Hp|simpl; lia]).
-        simpl length. split; nia.
+      * destruct (cnt_announce_host s s' Hwf Hflag Hstep) as (H2 & H3). fold m n in H3.
+        rewrite H2, H3. unfold pdsts. simpl. fold n.
+        assert (Hm : m = 0 \/ m = 1) by lia. destruct Hm as [Hm|Hm]; rewrite Hm in *.
+        -- split; nia.
+        -- specialize (Hm2 eq_refl). split; nia.
+      * destruct (cnt_announce_client s p s' Hwf Hp Hflag Hstep) as (H2 & H3). fold m in H2.
+        rewrite H2, H3. rewrite (pdsts_client s p) by (eapply wf_conn_ne; eauto). simpl length.
+        assert (1 <= n) by (subst n; destruct (pconn s); [inversion Hp|simpl; lia]).
+        assert (Hm : m = 0 \/ m = 1) by lia. destruct Hm as [Hm|Hm]; rewrite Hm in *.
+        -- split; nia.
+        -- specialize (Hm2 eq_refl). destruct M as [|M']; [lia|]. simpl. rewrite Nat.sub_0_r. split; nia.
     + left. apply step_announce in Hstep as (_ & [(_ & ->)|(Hn & _)]); [|congruence|exact Hnd].
       split; [exact Hflag|]. split; [reflexivity|]. unfold psent_by. rewrite Hflag. reflexivity.
   - (* deliver *)
     right. split; [reflexivity|].
-    assert (Hne : plink s src dst <> []).
-    { simpl in Hstep. destruct (plink s src dst); [discriminate|discriminate]. }
-    unfold pmeasure, ppotential, psent_by. destruct (plink s src dst) as [|m rest] eqn:Hl0; [contradiction|].
-    destruct (wf_link s src dst Hwf) as [[-> Hdc]|[-> Hsc]]; [rewrite Hl0; discriminate| |].
-    + destruct (count_deliver_down u s dst s' Hwf HP Hdc Hstep) as (Hc & H1 & H2 & H3).
-      rewrite Hc, H2.
+    destruct (plink s src dst) as [|m rest] eqn:Hl0; [simpl in Hstep; rewrite Hl0 in Hstep; discriminate|].
+    pose proof (step_pget s _ s' dst Hstep) as Hgd. simpl in Hgd. rewrite Hl0 in Hgd.
+    destruct (decide (dst = dst)) as [_|Hn]; [|contradiction].
+    assert (Hsame : forall q, q <> dst -> pget s' q = pget s q).
+    { intros q Hq. rewrite (step_pget s _ s' q Hstep). simpl. destruct (decide (q = dst)); [contradiction|reflexivity]. }
+    set (n := length (pconn s)) in *.
+    assert (Hends : (src = host /\ dst ∈ pconn s) \/ (dst = host /\ src ∈ pconn s)).
+    { apply (wf_link s src dst Hwf). rewrite Hl0. discriminate. }
+    assert (Hd : ppeers s dst) by (destruct Hends as [[_ H]|[-> _]]; [right; exact H|left; reflexivity]).
+    pose proof (wsum_one (pw1 n) s s' dst Hwf Hc Hd Hsame) as HW.
+    pose proof (wsum_one parm1 s s' dst Hwf Hc Hd Hsame) as HA.
+    rewrite Hgd in HW, HA.
+    pose proof (pw1_deliver n m (pget s dst)) as Hw. pose proof (parm1_deliver m (pget s dst)) as Ha.
+    unfold pmeasure, ppotential, psent_by. rewrite Hl0, Hc. fold n.
+    destruct Hends as [[-> Hdc]|[-> Hsc]].
+    + destruct (cnt_deliver_down s dst s' Hwf Hdc Hstep) as (H2 & H3). rewrite H2.
       destruct (dst =? host)%N eqn:E; [apply N.eqb_eq in E; subst dst; exfalso; eapply wf_host; eauto|].
       split; nia.
-    + destruct (count_deliver_up u s src s' Hwf HP Hsc Hstep) as (Hc & H1 & H2 & H3).
-      rewrite Hc. pose proof (length_pothers src (pconn s) Hnd Hsc) as Hlen.
-      simpl. split; nia.
+    + destruct (cnt_deliver_up s src s' Hwf Hsc Hstep) as (H2 & H3). fold n in H3.
+      pose proof (length_pothers src (pconn s) Hnd Hsc) as Hlen. fold n in Hlen.
+      simpl. destruct M as [|M']; [lia|]. simpl. rewrite Nat.sub_0_r. split; nia.
 Qed.
 
-Lemma drain_step_ph u s e s' :
-  pwf s -> Ph u s -> drain_event e -> pstep s e = Some s' -> Ph u s'.
+Lemma drain_run M tr : forall s s',
+  pwf s -> length (pconn s) <= M -> Forall drain_event tr -> prun s tr = Some s' ->
+  pwf s' /\ pconn s' = pconn s /\
+  peffective_count s tr + pmeasure s' <= pmeasure s /\
+  ptotal_sent s tr + ppotential M s' <= ppotential M s.
 Proof.
-  intros Hwf HP He Hstep. destruct e as [p x|p|src dst|c]; simpl in He; try contradiction.
-  - eapply ph_announce; eauto.
-  - eapply ph_deliver; eauto.
-Qed.
-
-Lemma drain_step_conn s e s' : drain_event e -> pstep s e = Some s' -> pconn s' = pconn s.
-Proof.
-  intros He Hstep. destruct e as [p x|p|src dst|c]; simpl in He; try contradiction; simpl in Hstep.
-  - destruct (pp s !! p) as [y|]; [|discriminate]. destruct (changed y); injection Hstep as <-; reflexivity.
-  - destruct (plink s src dst); [discriminate|]. destruct (pp s !! dst); [|discriminate].
-    injection Hstep as <-. reflexivity.
-Qed.
-
-Lemma drain_run u tr : forall s s',
-  pwf s -> Ph u s -> Forall drain_event tr -> prun s tr = Some s' ->
-  pwf s' /\ Ph u s' /\ pconn s' = pconn s /\
-  peffective_count s tr + pmeasure u s' <= pmeasure u s /\
-  ptotal_sent s tr + ppotential u s' <= ppotential u s.
-Proof.
-  induction tr as [|e tr IH]; intros s s' Hwf HP Hd Hrun; simpl in *.
-  - injection Hrun as <-. split; [exact Hwf|]. split; [exact HP|]. split; [reflexivity|]. split; lia.
+  induction tr as [|e tr IH]; intros s s' Hwf HM Hd Hrun; simpl in *.
+  - injection Hrun as <-. split; [exact Hwf|]. split; [reflexivity|]. split; lia.
   - destruct (pstep s e) as [s1|] eqn:Hs; [|discriminate].
     apply Forall_cons in Hd as [He Hd].
-    pose proof (step_wf s e s1 Hwf Hs) as Hwf1. pose proof (drain_step_ph u s e s1 Hwf HP He Hs) as HP1.
-    destruct (IH s1 s' Hwf1 HP1 Hd Hrun) as (Hwf' & HP' & Hc' & Hm' & Hs').
-    split; [exact Hwf'|]. split; [exact HP'|]. split; [rewrite Hc'; eapply drain_step_conn; eauto|].
-    destruct (drain_step_measure u s e s1 Hwf HP He Hs) as [(Heff & -> & Hz)|(Heff & Hlt & Hpot)]; rewrite Heff.
+    pose proof (step_wf s e s1 Hwf Hs) as Hwf1. pose proof (drain_step_conn s e s1 He Hs) as Hc1.
+    destruct (IH s1 s' Hwf1) as (Hwf' & Hc' & Hm' & Hs'); [rewrite Hc1; exact HM|exact Hd|exact Hrun|].
+    split; [exact Hwf'|]. split; [rewrite Hc'; exact Hc1|].
+    destruct (drain_step_measure M s e s1 Hwf HM He Hs) as [(Heff & -> & Hz)|(Heff & Hlt & Hpot)]; rewrite Heff.
     + rewrite Hz. split; simpl; assumption.
     + split; lia.
 Qed.
@@ -981,182 +987,494 @@ Proof.
     destruct Hb as [x Hx]. rewrite Hx. eexists. split; [exact I|]. split; reflexivity.
 Qed.
 
-(* every exchange can be driven to quiescence ... *)
-Lemma drain_terminates u : forall k s,
-  pmeasure u s <= k -> pwf s -> Ph u s ->
-  exists tr s', Forall drain_event tr /\ prun s tr = Some s' /\ pquiescent s'.
+Lemma drain_terminates_aux : forall k s,
+  pmeasure s <= k -> pwf s -> exists tr s', Forall drain_event tr /\ prun s tr = Some s' /\ pquiescent s'.
 Proof.
-  induction k as [|k IH]; intros s Hk Hwf HP.
+  induction k as [|k IH]; intros s Hk Hwf.
   - destruct (decide (pquiescent s)) as [Hq|Hn]; [exists [], s; auto|].
     destruct (drain_progress s Hwf Hn) as (e & s1 & He & Heff & Hs).
-    destruct (drain_step_measure u s e s1 Hwf HP He Hs) as [(Hf & _)|(_ & Hlt & _)]; [congruence|lia].
+    destruct (drain_step_measure _ s e s1 Hwf (le_n _) He Hs) as [(Hf & _)|(_ & Hlt & _)]; [congruence|lia].
   - destruct (decide (pquiescent s)) as [Hq|Hn]; [exists [], s; auto|].
     destruct (drain_progress s Hwf Hn) as (e & s1 & He & Heff & Hs).
-    destruct (drain_step_measure u s e s1 Hwf HP He Hs) as [(Hf & _)|(_ & Hlt & _)]; [congruence|].
-    destruct (IH s1) as (tr & s' & Hd & Hrun & Hq); [lia|eapply step_wf; eauto|eapply drain_step_ph; eauto|].
+    destruct (drain_step_measure _ s e s1 Hwf (le_n _) He Hs) as [(Hf & _)|(_ & Hlt & _)]; [congruence|].
+    destruct (IH s1) as (tr & s' & Hd & Hrun & Hq); [lia|eapply step_wf; eauto|].
     exists (e :: tr), s'. split; [constructor; assumption|]. split; [simpl; rewrite Hs; exact Hrun|exact Hq].
 Qed.
 
-(* ... and no exchange goes on for ever: there is no infinite sequence of effective events *)
-Theorem no_infinite_exchange u (st : nat -> pstate) (ev : nat -> pevent) :
-  pwf (st 0) -> Ph u (st 0) ->
+(* THEOREM 3 (termination, no premise on the history).
+   (a) every effective announce / deliver event strictly decreases [pmeasure], from any well-formed state *)
+Theorem drain_measure_decreases s e s' :
+  pwf s -> drain_event e -> effective s e = true -> pstep s e = Some s' -> pmeasure s' < pmeasure s.
+Proof.
+  intros Hwf He Heff Hs.
+  destruct (drain_step_measure _ s e s' Hwf (le_n _) He Hs) as [(Hf & _)|(_ & Hlt & _)]; [congruence|exact Hlt].
+Qed.
+Print Assumptions drain_measure_decreases.
+
+(* (b) hence any sequence of announce / deliver events contains at most [pmeasure s] effective ones *)
+Theorem drain_effective_bounded s tr s' :
+  pwf s -> Forall drain_event tr -> prun s tr = Some s' -> peffective_count s tr <= pmeasure s.
+Proof.
+  intros Hwf Hd Hrun. destruct (drain_run _ tr s s' Hwf (le_n _) Hd Hrun) as (_ & _ & H & _). lia.
+Qed.
+Print Assumptions drain_effective_bounded.
+
+(* (c) there is no infinite sequence of effective announce / deliver events *)
+Theorem no_infinite_exchange (st : nat -> pstate) (ev : nat -> pevent) :
+  pwf (st 0) ->
   (forall i, drain_event (ev i) /\ effective (st i) (ev i) = true /\ pstep (st i) (ev i) = Some (st (S i))) ->
   False.
 Proof.
-  intros Hwf HP Hinf.
-  assert (H : forall i, pwf (st i) /\ Ph u (st i) /\ pmeasure u (st i) + i <= pmeasure u (st 0)).
-  { induction i as [|i (Hwi & HPi & Hmi)]; [split; [exact Hwf|]; split; [exact HP|lia]|].
+  intros Hwf Hinf.
+  assert (H : forall i, pwf (st i) /\ pmeasure (st i) + i <= pmeasure (st 0)).
+  { induction i as [|i (Hwi & Hmi)]; [split; [exact Hwf|lia]|].
     destruct (Hinf i) as (He & Heff & Hs).
-    split; [eapply step_wf; eauto|]. split; [eapply drain_step_ph; eauto|].
-    destruct (drain_step_measure u (st i) (ev i) (st (S i)) Hwi HPi He Hs) as [(Hf & _)|(_ & Hlt & _)]; [congruence|lia]. }
-  destruct (H (S (pmeasure u (st 0)))) as (_ & _ & Hbad). lia.
+    split; [eapply step_wf; eauto|].
+    pose proof (drain_measure_decreases (st i) (ev i) (st (S i)) Hwi He Heff Hs). lia. }
+  destruct (H (S (pmeasure (st 0)))) as (_ & Hbad). lia.
 Qed.
 Print Assumptions no_infinite_exchange.
 
+(* (d) and every well-formed state can be drained to a quiescent one *)
+Theorem drain_terminates s :
+  pwf s -> exists tr s', Forall drain_event tr /\ prun s tr = Some s' /\ pquiescent s'.
+Proof. intros Hwf. apply (drain_terminates_aux (pmeasure s) s (le_n _) Hwf). Qed.
+Print Assumptions drain_terminates.
+
+(* non-vacuity: a non-quiescent state in the middle of a conflict of two writers (not a state of any
+   "nice" history): measure 10, and the drain below makes 10 effective events: the bound is reached *)
+Example termination_nonvacuous :
+  (fun s => (pquiescentb s, pmeasure s,
+             peffective_count s [PAnnounce 1; PAnnounce 0; PDeliver 1 0; PDeliver 0 1; PDeliver 0 2; PAnnounce 0;
+                                 PAnnounce 1; PAnnounce 2; PDeliver 0 2; PAnnounce 2]%N,
+             pquiescentb <$> prun s [PAnnounce 1; PAnnounce 0; PDeliver 1 0; PDeliver 0 1; PDeliver 0 2; PAnnounce 0;
+                                 PAnnounce 1; PAnnounce 2; PDeliver 0 2; PAnnounce 2]%N)) <$>
+    prun (pinit 2) [PSet 1 7; PSet 0 8]%N
+  = Some (false, 10, 10, Some true).
+Proof. vm_compute. reflexivity. Qed.
+
 (* ================================================================================================
-   Part 7: one operation from a quiescent state (C05, single operation; its part of C09)
+   Part 6: traffic bounds (theorem 4)
    ================================================================================================ *)
 
-Lemma set_quiescent_counts s w u s1 :
-  pwf s -> pquiescent s -> pstep s (PSet w u) = Some s1 ->
-  pconn s1 = pconn s /\ pcnt u s1 <= length (pconn s) + 1 /\ pups s1 = 0 /\ pdowns s1 = 0.
+Lemma wsum_zero f s : (forall p, f (pget s p) = 0) -> wsum f s = 0.
 Proof.
-  intros Hwf Hq Hstep. apply step_set in Hstep as (_ & Hc & Hl & _ & Hpar & Hchg).
-  assert (Hlk : forall a b, plink s1 a b = []).
-  { intros a b. unfold plink. rewrite Hl. apply (quiescent_link s a b Hq). }
-  assert (H1 : forall q, pcnt1 u s1 q <= 1).
-  { intros q. unfold pcnt1. rewrite Hpar, Hchg. destruct (decide (q = w)).
-    - rewrite bool_decide_eq_true_2 by reflexivity. lia.
-    - rewrite (quiescent_chg _ _ Hq). destruct (bool_decide _); lia. }
-  split; [exact Hc|]. unfold pcnt, pups, pdowns. rewrite Hc. split; [|split].
-  - pose proof (H1 host). pose proof (sumf_bound (pcnt1 u s1) (pconn s) 1 (fun c _ => H1 c)). lia.
-  - apply sumf_zero. intros c _. rewrite Hlk. reflexivity.
-  - apply sumf_zero. intros c _. rewrite Hlk. reflexivity.
+  intros H. unfold wsum. rewrite H. simpl. apply sumf_zero. intros c _. apply H.
 Qed.
 
-(* the exact worst case: n clients, the operation costs at most n*(n+1) messages
-   (originator -> host -> others: n; the host's own announcement: n; each of the n-1 other clients
-   echoes once (n-1) -- with the originator's announcement that is n messages to the host, each
-   relayed to the n-1 other clients) -- less than the square of the number of peers, (n+1)^2 *)
+Lemma parm1_le1 x : parm1 x <= 1.
+Proof. unfold parm1. destruct (rarmed x); lia. Qed.
+
+Lemma quiescent_unarmed s p : pquiescent s -> parmed s p = false.
+Proof. intros Hq. unfold parmed. rewrite (quiescent_chg _ _ Hq). reflexivity. Qed.
+
+Lemma quiescent_potential M s : pquiescent s -> ppotential M s = 0.
+Proof.
+  intros Hq. unfold ppotential.
+  rewrite (wsum_zero parm1 s).
+  - assert (H : pups s = 0); [|rewrite H; lia].
+    unfold pups. apply sumf_zero. intros c _. rewrite (quiescent_link _ _ _ Hq). reflexivity.
+  - intros p. unfold parm1. rewrite <- parmed_rarmed, (quiescent_unarmed _ _ Hq). reflexivity.
+Qed.
+
+Lemma psets_drain tr : Forall drain_event tr -> psets tr = [] /\ pjoiners tr = [].
+Proof.
+  induction 1 as [|e tr He _ [IH1 IH2]]; [auto|].
+  destruct e; simpl in He; try contradiction; simpl; auto.
+Qed.
+
+(* what a PSet does to the potential: at most one more armed peer *)
+Lemma set_potential M s p u s1 :
+  pwf s -> pstep s (PSet p u) = Some s1 -> ppotential M s1 <= ppotential M s + M.
+Proof.
+  intros Hwf Hstep. pose proof (step_set _ _ _ _ Hstep) as (Hp & Hc & Hl & _ & Hg).
+  apply (wf_exists s p Hwf) in Hp.
+  assert (Hsame : forall q, q <> p -> pget s1 q = pget s q).
+  { intros q Hq. rewrite Hg. destruct (decide (q = p)); [contradiction|reflexivity]. }
+  pose proof (wsum_one parm1 s s1 p Hwf Hc Hp Hsame) as HA.
+  pose proof (parm1_le1 (pget s1 p)).
+  assert (Hu : pups s1 = pups s) by (unfold pups, plink; rewrite Hc, Hl; reflexivity).
+  unfold ppotential. rewrite Hu. nia.
+Qed.
+
+(* ... and a join: nothing (the joiner is not armed, the snapshot travels from the host) *)
+Lemma join_potential M s c s1 :
+  pwf s -> pstep s (PJoin c) = Some s1 ->
+  ppotential M s1 = ppotential M s /\ length (pconn s1) = length (pconn s) + 1 /\ psent_by s (PJoin c) <= 1.
+Proof.
+  intros Hwf Hstep. pose proof (step_join _ _ _ Hstep) as (Hch & Hcn & Hnone & Hc & _ & Hg & Hl).
+  assert (Hw : wsum parm1 s1 = wsum parm1 s).
+  { unfold wsum. rewrite Hc, Hg, sumf_app. simpl. rewrite Hg, (pget_none _ _ Hnone). simpl.
+    rewrite (sumf_ext (fun c0 => parm1 (pget s c0)) (fun c0 => parm1 (pget s1 c0))); [lia|].
+    intros c0 _. rewrite Hg. reflexivity. }
+  assert (Hu : pups s1 = pups s).
+  { unfold pups. rewrite Hc, sumf_app. simpl. rewrite Hl.
+    destruct (decide ((c, host) = (host, c))) as [E|_]; [congruence|].
+    rewrite (wf_link_nil s c host Hwf Hcn (wf_host s Hwf)). simpl.
+    rewrite (sumf_ext (fun c0 => length (plink s c0 host)) (fun c0 => length (plink s1 c0 host))); [lia|].
+    intros c0 _. rewrite Hl. destruct (decide ((c0, host) = (host, c))) as [E|_]; [congruence|reflexivity]. }
+  split; [unfold ppotential; rewrite Hw, Hu; reflexivity|].
+  split; [rewrite Hc, app_length; simpl; lia|].
+  simpl. destruct (ppar s host); simpl; lia.
+Qed.
+
+Lemma traffic_general M tr : forall s,
+  pwf s -> length (pconn s) + length (pjoiners tr) <= M ->
+  ptotal_sent s tr <= ppotential M s + M * length (psets tr) + length (pjoiners tr).
+Proof.
+  induction tr as [|e tr IH]; intros s Hwf HM; simpl; [lia|].
+  destruct (pstep s e) as [s1|] eqn:Hs; [|lia].
+  pose proof (step_wf s e s1 Hwf Hs) as Hwf1.
+  destruct e as [p u|p|src dst|c]; simpl in HM |- *.
+  - pose proof (set_potential M s p u s1 Hwf Hs) as Hpot.
+    assert (Hc : pconn s1 = pconn s) by (apply step_set in Hs; tauto).
+    specialize (IH s1 Hwf1). rewrite Hc in IH. specialize (IH HM). lia.
+  - pose proof (drain_step_conn s (PAnnounce p) s1 I Hs) as Hc.
+    specialize (IH s1 Hwf1). rewrite Hc in IH. specialize (IH HM).
+    destruct (drain_step_measure M s (PAnnounce p) s1 Hwf ltac:(lia) I Hs) as [(_ & -> & Hz)|(_ & _ & Hpot)].
+    + simpl in Hz. rewrite Hz. lia.
+    + simpl in Hpot. lia.
+  - pose proof (drain_step_conn s (PDeliver src dst) s1 I Hs) as Hc.
+    specialize (IH s1 Hwf1). rewrite Hc in IH. specialize (IH HM).
+    destruct (drain_step_measure M s (PDeliver src dst) s1 Hwf ltac:(lia) I Hs) as [(Hf & _)|(_ & _ & Hpot)].
+    + simpl in Hf. discriminate.
+    + simpl in Hpot. lia.
+  - destruct (join_potential M s c s1 Hwf Hs) as (Hpot & Hlen & Hsent). simpl in Hsent.
+    specialize (IH s1 Hwf1). rewrite Hlen, Hpot in IH. lapply IH; [lia|lia].
+Qed.
+
+(* THEOREM 4a: one operation issued at a quiescent state costs at most n messages, n = number of
+   connected clients (a client's announcement + n-1 relays, or the host's n broadcasts), whatever
+   the schedule -- the peers need not even agree beforehand *)
 Theorem parent_messages_bounded s0 w u s1 tr s' :
   pwf s0 -> pquiescent s0 -> pstep s0 (PSet w u) = Some s1 ->
   Forall drain_event tr -> prun s1 tr = Some s' ->
-  ptotal_sent s1 tr <= length (pconn s0) * (length (pconn s0) + 1).
+  ptotal_sent s1 tr <= length (pconn s0).
 Proof.
   intros Hwf Hq Hset Hd Hrun.
-  destruct (set_quiescent_counts s0 w u s1 Hwf Hq Hset) as (Hc & Hcnt & Hu & Hdn).
-  pose proof (step_wf _ _ _ Hwf Hset) as Hwf1. pose proof (ph_set_quiescent _ _ _ _ Hwf Hq Hset) as HP1.
-  destruct (drain_run u tr s1 s' Hwf1 HP1 Hd Hrun) as (_ & _ & _ & _ & Hs).
-  unfold ppotential in Hs at 2. rewrite Hc, Hu in Hs. nia.
+  pose proof (step_wf _ _ _ Hwf Hset) as Hwf1.
+  assert (Hc : pconn s1 = pconn s0) by (apply step_set in Hset; tauto).
+  pose proof (set_potential (length (pconn s0)) s0 w u s1 Hwf Hset) as Hpot.
+  rewrite (quiescent_potential _ s0 Hq) in Hpot.
+  destruct (drain_run (length (pconn s0)) tr s1 s' Hwf1) as (_ & _ & _ & Hs); [rewrite Hc; lia|exact Hd|exact Hrun|].
+  lia.
 Qed.
 Print Assumptions parent_messages_bounded.
 
-(* the bound is reached *)
+(* the bound is reached, by a client's operation and by the host's *)
 Example parent_messages_bound_tight :
-  ptotal_sent (pinit 2) ex_single = length (pconn (pinit 2)) * (length (pconn (pinit 2)) + 1).
-Proof. vm_compute. reflexivity. Qed.
+  ptotal_sent (pinit 2) ex_single = length (pconn (pinit 2)) /\
+  ptotal_sent (pinit 2) ex_host_sets = length (pconn (pinit 2)) /\
+  pquiescentb <$> prun (pinit 2) ex_single = Some true /\ pquiescentb <$> prun (pinit 2) ex_host_sets = Some true.
+Proof. vm_compute. auto. Qed.
 
-Theorem C05_single_operation_converges s0 w u s1 tr s' :
-  pwf s0 -> pquiescent s0 -> pstep s0 (PSet w u) = Some s1 ->
+(* a join at a quiescent state costs the snapshot and nothing else *)
+Theorem join_messages_bounded s c s1 tr s' :
+  pwf s -> pquiescent s -> pstep s (PJoin c) = Some s1 ->
   Forall drain_event tr -> prun s1 tr = Some s' ->
-  let n := length (pconn s0) in
-  (* whenever the run is quiescent, every peer has the new parent *)
-  (pquiescent s' -> Agree s' (Some u)) /\
-  (* at most (n+1)^2 events of the run do anything at all; at most n*(n+1) messages are sent *)
-  peffective_count s1 tr <= (n + 1) * (n + 1) /\
-  ptotal_sent s1 tr <= n * (n + 1) /\
-  (* the measure: as long as the state is not quiescent something can happen, and whatever
-     happens (any effective announce / deliver event of any peer) strictly decreases it *)
-  (~ pquiescent s' -> exists e s'', drain_event e /\ effective s' e = true /\ pstep s' e = Some s'') /\
-  (forall e s'', drain_event e -> effective s' e = true -> pstep s' e = Some s'' -> pmeasure u s'' < pmeasure u s') /\
-  (* hence every maximal run is finite and ends quiescent: the run can be completed ... *)
-  (exists tr2 s'', Forall drain_event tr2 /\ prun s' tr2 = Some s'' /\ pquiescent s'' /\ Agree s'' (Some u)) /\
-  (* ... and cannot be continued for ever *)
-  (forall (st : nat -> pstate) (ev : nat -> pevent), st 0 = s' ->
-     (forall i, drain_event (ev i) /\ effective (st i) (ev i) = true /\ pstep (st i) (ev i) = Some (st (S i))) -> False).
+  ptotal_sent s (PJoin c :: tr) <= 1.
 Proof.
-  intros Hwf Hq Hset Hd Hrun n.
-  destruct (set_quiescent_counts s0 w u s1 Hwf Hq Hset) as (Hc & Hcnt & Hu & Hdn).
-  pose proof (step_wf _ _ _ Hwf Hset) as Hwf1. pose proof (ph_set_quiescent _ _ _ _ Hwf Hq Hset) as HP1.
-  destruct (drain_run u tr s1 s' Hwf1 HP1 Hd Hrun) as (Hwf' & HP' & Hc' & Hm & Hs).
-  split; [intros Hq'; apply ph_quiescent_agree; assumption|].
-  split; [unfold pmeasure in Hm at 2; rewrite Hc, Hu, Hdn in Hm; subst n; nia|].
-  split; [eapply parent_messages_bounded; eauto|].
-  split; [intros Hn; apply drain_progress; assumption|].
-  split.
-  { intros e s'' He Heff Hstep.
-    destruct (drain_step_measure u s' e s'' Hwf' HP' He Hstep) as [(Hf & _)|(_ & Hlt & _)]; [congruence|exact Hlt]. }
-  split.
-  { destruct (drain_terminates u (pmeasure u s') s' (le_n _) Hwf' HP') as (tr2 & s'' & Hd2 & Hrun2 & Hq2).
-    exists tr2, s''. split; [exact Hd2|]. split; [exact Hrun2|]. split; [exact Hq2|].
-    destruct (drain_run u tr2 s' s'' Hwf' HP' Hd2 Hrun2) as (_ & HP'' & _). apply ph_quiescent_agree; assumption. }
-  intros st ev H0 Hinf. apply (no_infinite_exchange u st ev); rewrite ?H0; assumption.
+  intros Hwf Hq Hjoin Hd Hrun.
+  destruct (psets_drain tr Hd) as [Hs Hj].
+  pose proof (traffic_general (length (pconn s) + 1) (PJoin c :: tr) s Hwf) as H.
+  simpl pjoiners in H. simpl psets in H. rewrite Hs, Hj, (quiescent_potential _ s Hq) in H. simpl in H.
+  lapply H; [|lia]. simpl. lia.
 Qed.
-Print Assumptions C05_single_operation_converges.
+Print Assumptions join_messages_bounded.
 
-(* non-vacuity: 3 peers, client 1 sets the parent; [ex_single] is such a run, it ends quiescent,
-   and a prefix of it is not quiescent (so the progress clause is not vacuous either) *)
-Example C05_single_operation_nonvacuous :
-  exists s1 s', pwf (pinit 2) /\ pquiescent (pinit 2) /\ pstep (pinit 2) (PSet 1%N 7%N) = Some s1 /\
-    Forall drain_event (tail ex_single) /\ prun s1 (tail ex_single) = Some s' /\ pquiescent s' /\
-    Agree s' (Some 7%N) /\ peffective_count s1 (tail ex_single) = 9 /\
-    (exists s2, prun s1 (take 4 (tail ex_single)) = Some s2 /\ ~ pquiescent s2).
+(* THEOREM 4b: ANY history from [pinit n] (any operations by any peers at any pace, conflicts
+   included, joins at any moment, any schedule): every operation costs at most M messages, every
+   join one, where M = n + number of joins bounds the number of connected clients *)
+Theorem total_traffic_bounded n tr :
+  ptotal_sent (pinit n) tr <=
+  length (psets tr) * (n + length (pjoiners tr)) + length (pjoiners tr).
 Proof.
-  destruct (pstep (pinit 2) (PSet 1%N 7%N)) as [s1|] eqn:H1; [|vm_compute in H1; discriminate].
-  assert (Hcons : forall r, prun s1 (tail ex_single) = r -> prun (pinit 2) ex_single = r).
-  { intros r Hr. change (prun (pinit 2) ex_single)
-      with (match pstep (pinit 2) (PSet 1%N 7%N) with Some x => prun x (tail ex_single) | None => None end).
-    rewrite H1. exact Hr. }
-  destruct (prun s1 (tail ex_single)) as [s'|] eqn:H2.
-  2:{ exfalso. pose proof (Hcons None eq_refl) as H. vm_compute in H. discriminate. }
-  pose proof (Hcons _ eq_refl) as Hrun.
-  assert (Hd : Forall drain_event (tail ex_single)) by (simpl; repeat constructor).
-  assert (Hq : pquiescent s').
-  { apply (bool_decide_eq_true_1 (pquiescent s')). change (pquiescentb s' = true).
-    assert (H : pquiescentb <$> prun (pinit 2) ex_single = Some true) by (vm_compute; reflexivity).
-    rewrite Hrun in H. simpl in H. congruence. }
-  exists s1, s'. split; [apply pinit_wf|]. split; [apply pinit_quiescent|]. split; [first [reflexivity|exact H1]|].
-  split; [exact Hd|]. split; [first [reflexivity|exact H2]|]. split; [exact Hq|]. split.
-  - apply (C05_single_operation_converges (pinit 2) 1%N 7%N s1 (tail ex_single) s'); auto using pinit_wf, pinit_quiescent.
-  - split.
-    + assert (H : match pstep (pinit 2) (PSet 1%N 7%N) with Some s1 => peffective_count s1 (tail ex_single) | None => 0 end = 9)
-        by (vm_compute; reflexivity).
-      rewrite H1 in H. exact H.
-    + destruct (prun s1 (take 4 (tail ex_single))) as [s2|] eqn:H3.
-      * exists s2. split; [reflexivity|]. intros Hq2.
-        assert (H : match pstep (pinit 2) (PSet 1%N 7%N) with
-                    | Some s1 => pquiescentb <$> prun s1 (take 4 (tail ex_single)) | None => None end = Some false)
-          by (vm_compute; reflexivity).
-        rewrite H1, H3 in H. simpl in H. injection H as H. apply bool_decide_eq_false in H. contradiction.
-      * exfalso.
-        assert (H : match pstep (pinit 2) (PSet 1%N 7%N) with
-                    | Some s1 => pquiescentb <$> prun s1 (take 4 (tail ex_single)) | None => None end = Some false)
-          by (vm_compute; reflexivity).
-        rewrite H1, H3 in H. discriminate.
+  pose proof (traffic_general (n + length (pjoiners tr)) tr (pinit n) (pinit_wf n)) as H.
+  rewrite (quiescent_potential _ _ (pinit_quiescent n)) in H.
+  simpl pconn in H. rewrite length_pclients in H. lapply H; [lia|lia].
+Qed.
+Print Assumptions total_traffic_bounded.
+
+Corollary total_traffic_bounded_uniform n tr :
+  ptotal_sent (pinit n) tr <= (length (psets tr) + length (pjoiners tr)) * (n + length (pjoiners tr)).
+Proof. pose proof (total_traffic_bounded n tr). nia. Qed.
+
+(* non-vacuity: two writers in conflict, a join in the middle: 2 operations * 3 clients + 1 join *)
+Example total_traffic_nonvacuous :
+  let tr := [PSet 1 7; PSet 0 8; PAnnounce 1; PJoin 3; PAnnounce 0; PDeliver 1 0; PDeliver 0 1; PDeliver 0 2;
+             PDeliver 0 2; PDeliver 0 3; PDeliver 0 3; PDeliver 0 3]%N in
+  ptotal_sent (pinit 2) tr = 7 /\ length (psets tr) * (2 + length (pjoiners tr)) + length (pjoiners tr) = 7.
+Proof. vm_compute. auto. Qed.
+
+Lemma ptotal_sent_app s tr1 tr2 :
+  ptotal_sent s (tr1 ++ tr2) =
+  match prun s tr1 with Some s1 => ptotal_sent s tr1 + ptotal_sent s1 tr2 | None => ptotal_sent s tr1 end.
+Proof.
+  revert s. induction tr1 as [|e tr1 IH]; intros s; simpl; [reflexivity|].
+  destruct (pstep s e) as [s1|]; [|reflexivity]. rewrite IH. destruct (prun s1 tr1); lia.
 Qed.
 
 (* ================================================================================================
-   Part 8: histories -- operations separated by quiescence, safe joins (C05)
-   [PhI t s]: t = the parent given by the last PSet; None = nothing has ever been set.
+   Part 7: the invariant of a BLOCK of operations of one writer w (any number of PSet by w, at any
+   pace, with any parents; announce / deliver events of everybody; joins at any moment).
+     - w holds no token, nobody else is armed, only w's link towards the host carries anything upwards;
+     - what travels from w to the host ends with w's current parent unless w's flag is raised;
+     - what travels from the host to a client c ends with the host's current parent (unless the
+       writer is the host and its flag is raised: then its next announcement reaches everybody).
+   [last_or l d]: the last element of l, d if l is empty -- the value the receiver ends up with.
+   ================================================================================================ *)
+
+Fixpoint last_or (l : list puid) (d : option puid) : option puid :=
+  match l with [] => d | x :: l => last_or l (Some x) end.
+
+Lemma last_or_snoc l u d : last_or (l ++ [u]) d = Some u.
+Proof. revert d. induction l as [|x l IH]; intros d; simpl; [reflexivity|apply IH]. Qed.
+
+Definition Agree (s : pstate) (x : option puid) : Prop := forall p, ppeers s p -> ppar s p = x.
+
+Record Bk (w : peer) (s : pstate) : Prop := {
+  bk_w : ppeers s w;
+  bk_tok : ptok s w = None;
+  bk_quiet : forall p, p <> w -> parmed s p = false;
+  bk_up : forall c, c ∈ pconn s -> c <> w -> plink s c host = [];
+  bk_wdown : w <> host -> plink s host w = [];
+  bk_wup : w <> host -> pchg s w = true \/ last_or (plink s w host) (ppar s host) = ppar s w;
+  bk_down : forall c, c ∈ pconn s -> c <> w ->
+    (w = host /\ pchg s host = true) \/ last_or (plink s host c) (ppar s c) = ppar s host
+}.
+
+Lemma bk_quiescent_agree w s : pquiescent s -> Bk w s -> Agree s (ppar s w).
+Proof.
+  intros Hq HB.
+  assert (Hh : ppar s host = ppar s w).
+  { destruct (decide (w = host)) as [->|Hne]; [reflexivity|].
+    destruct (bk_wup w s HB Hne) as [H|H]; [rewrite (quiescent_chg _ _ Hq) in H; discriminate|].
+    rewrite (quiescent_link _ _ _ Hq) in H. exact H. }
+  intros p [->|Hp]; [exact Hh|].
+  destruct (decide (p = w)) as [->|Hne]; [reflexivity|].
+  destruct (bk_down w s HB p Hp Hne) as [[_ H]|H]; [rewrite (quiescent_chg _ _ Hq) in H; discriminate|].
+  rewrite (quiescent_link _ _ _ Hq) in H. simpl in H. congruence.
+Qed.
+
+(* any peer can start a block at a quiescent state where all peers agree *)
+Lemma bk_start s x w :
+  psync_inv s -> pquiescent s -> Agree s x -> ppeers s w -> Bk w s.
+Proof.
+  intros Hinv Hq Ha Hw. split.
+  - exact Hw.
+  - destruct (ptok s w) as [u|] eqn:Ht; [|reflexivity].
+    destruct (Hinv w) as [H _]. rewrite Ht in H. rewrite (quiescent_chg _ _ Hq) in H.
+    lapply H; [discriminate|discriminate].
+  - intros p _. apply quiescent_unarmed. exact Hq.
+  - intros c _ _. apply quiescent_link. exact Hq.
+  - intros _. apply quiescent_link. exact Hq.
+  - intros _. right. rewrite (quiescent_link _ _ _ Hq). simpl.
+    rewrite (Ha host), (Ha w); [reflexivity|exact Hw|left; reflexivity].
+  - intros c Hc _. right. rewrite (quiescent_link _ _ _ Hq). simpl.
+    rewrite (Ha host), (Ha c); [reflexivity|right; exact Hc|left; reflexivity].
+Qed.
+
+Lemma par_pdel u x : par (pdel_peer u x) = Some u.
+Proof.
+  unfold pdel_peer. destruct (bool_decide (par x = Some u)) eqn:Hb; [|reflexivity].
+  apply bool_decide_eq_true in Hb. exact Hb.
+Qed.
+
+Lemma rarmed_pdel u x : rarmed x = false -> rarmed (pdel_peer u x) = false.
+Proof.
+  intros H. unfold pdel_peer. destruct (bool_decide (par x = Some u)); [exact H|].
+  unfold rarmed. simpl. rewrite bool_decide_eq_true_2 by reflexivity. reflexivity.
+Qed.
+
+Lemma tok_pdel_chg u x : changed x = true -> changed (pdel_peer u x) = true.
+Proof. intros H. unfold pdel_peer. destruct (bool_decide _); [exact H|reflexivity]. Qed.
+
+(* what an unarmed peer with a raised flag announces: nothing *)
+Lemma unarmed_msg s p : psync_inv s -> pchg s p = true -> parmed s p = false -> pann_msg (pget s p) = [].
+Proof.
+  intros Hinv Hc Ha. unfold parmed in Ha. rewrite Hc in Ha. simpl in Ha.
+  apply negb_false_iff, bool_decide_eq_true in Ha. destruct (Hinv p) as [_ Hpar]. specialize (Hpar Hc).
+  unfold pann_msg. unfold ppar, ptok in *. destruct (par (pget s p)) as [u|]; [|reflexivity].
+  rewrite bool_decide_eq_true_2 by congruence. reflexivity.
+Qed.
+
+(* what a peer without token and with a raised flag announces: its parent *)
+Lemma notoken_msg s p : psync_inv s -> pchg s p = true -> ptok s p = None ->
+  exists u, ppar s p = Some u /\ pann_msg (pget s p) = [u].
+Proof.
+  intros Hinv Hc Ht. destruct (Hinv p) as [_ Hpar]. specialize (Hpar Hc).
+  unfold pann_msg. unfold ppar, ptok in *. destruct (par (pget s p)) as [u|]; [|contradiction].
+  exists u. split; [reflexivity|]. rewrite Ht. rewrite bool_decide_eq_false_2 by discriminate. reflexivity.
+Qed.
+
+(* the block invariant is preserved by every event except a PSet of another peer *)
+Lemma bk_step w s e s' :
+  pwf s -> psync_inv s -> Bk w s -> pstep s e = Some s' ->
+  match e with PSet p _ => p = w | _ => True end ->
+  Bk w s' /\ ppar s' w = match e with PSet _ u => Some u | _ => ppar s w end.
+Proof.
+  intros Hwf Hinv HB Hstep Hok. pose proof (wf_nodup s Hwf) as Hnd.
+  pose proof HB as [Hw Htok Hquiet Hup Hwdown Hwup Hdown].
+  destruct e as [p u|p|src dst|c].
+  - (* PSet w u *)
+    subst p. apply step_set in Hstep as (_ & Hc & Hl & _ & Hg).
+    assert (Hlk : forall a b, plink s' a b = plink s a b) by (intros a b; unfold plink; rewrite Hl; reflexivity).
+    assert (Hgw : pget s' w = pset_rec u (pget s w)) by (rewrite Hg; destruct (decide (w = w)); [reflexivity|contradiction]).
+    assert (Hgo : forall q, q <> w -> pget s' q = pget s q) by (intros q Hq; rewrite Hg; destruct (decide (q = w)); [contradiction|reflexivity]).
+    split; [|unfold ppar; rewrite Hgw; reflexivity]. split.
+    + unfold ppeers. rewrite Hc. exact Hw.
+    + unfold ptok. rewrite Hgw. exact Htok.
+    + intros q Hq. rewrite !parmed_rarmed, Hgo in * by exact Hq. rewrite <- parmed_rarmed. apply Hquiet. exact Hq.
+    + intros c. rewrite Hc, Hlk. apply Hup.
+    + rewrite Hlk. exact Hwdown.
+    + intros _. left. unfold pchg. rewrite Hgw. reflexivity.
+    + intros c. rewrite Hc. intros Hcc Hne. destruct (decide (w = host)) as [Hwh|Hwh].
+      * left. split; [exact Hwh|]. subst w. unfold pchg. rewrite Hgw. reflexivity.
+      * right. destruct (Hdown c Hcc Hne) as [[E _]|H]; [contradiction|].
+        rewrite Hlk. unfold ppar. rewrite (Hgo c Hne), (Hgo host) by congruence. exact H.
+  - (* PAnnounce p *)
+    apply step_announce in Hstep as (_ & [(_ & ->)|(Hpc & Hc & _ & Hg & Hl)]); [split; [exact HB|reflexivity]| |exact Hnd].
+    assert (Hpar : forall q, ppar s' q = ppar s q).
+    { intros q. unfold ppar. rewrite Hg. destruct (decide (q = p)) as [->|_]; reflexivity. }
+    assert (Hgo : forall q, q <> p -> pget s' q = pget s q) by (intros q Hq; rewrite Hg; destruct (decide (q = p)); [contradiction|reflexivity]).
+    assert (Hgp : pget s' p = pann_peer (pget s p)) by (rewrite Hg; destruct (decide (p = p)); [reflexivity|contradiction]).
+    split; [|apply Hpar].
+    destruct (decide (p = w)) as [->|Hpw].
+    + (* the writer announces its current parent *)
+      destruct (notoken_msg s w Hinv Hpc Htok) as (u & Hwu & Hmsg). rewrite Hmsg in Hl.
+      split.
+      * unfold ppeers. rewrite Hc. exact Hw.
+      * unfold ptok. rewrite Hgp. reflexivity.
+      * intros q Hq. rewrite parmed_rarmed, Hgo by exact Hq. rewrite <- parmed_rarmed. apply Hquiet. exact Hq.
+      * intros c. rewrite Hc. intros Hcc Hne. rewrite Hl.
+        destruct (decide (c = w /\ _)) as [[E _]|_]; [contradiction|]. apply Hup; assumption.
+      * intros Hwh. rewrite Hl. destruct (decide (host = w /\ _)) as [[E _]|_]; [congruence|]. apply Hwdown. exact Hwh.
+      * intros Hwh. right. rewrite Hl. rewrite (pdsts_client s w Hwh).
+        destruct (decide (w = w /\ host ∈ [host])) as [_|Hn].
+        -- rewrite last_or_snoc, Hpar. symmetry. exact Hwu.
+        -- exfalso. apply Hn. split; [reflexivity|apply elem_of_list_singleton; reflexivity].
+      * intros c. rewrite Hc. intros Hcc Hne. right. rewrite Hl, !Hpar.
+        destruct (decide (host = w /\ c ∈ pdsts s w)) as [[<- _]|Hn].
+        -- rewrite last_or_snoc. symmetry. exact Hwu.
+        -- destruct (Hdown c Hcc Hne) as [[-> _]|H]; [|exact H].
+           exfalso. apply Hn. split; [reflexivity|]. exact Hcc.
+    + (* somebody else: its flag goes down, nothing is sent *)
+      pose proof (unarmed_msg s p Hinv Hpc (Hquiet p Hpw)) as Hmsg. rewrite Hmsg in Hl.
+      assert (Hlk : forall a b, plink s' a b = plink s a b).
+      { intros a b. rewrite Hl. destruct (decide _); [apply app_nil_r|reflexivity]. }
+      split.
+      * unfold ppeers. rewrite Hc. exact Hw.
+      * unfold ptok. rewrite Hgo by congruence. exact Htok.
+      * intros q Hq. destruct (decide (q = p)) as [->|Hqp].
+        -- rewrite parmed_rarmed, Hgp. reflexivity.
+        -- rewrite parmed_rarmed, Hgo by exact Hqp. rewrite <- parmed_rarmed. apply Hquiet. exact Hq.
+      * intros c. rewrite Hc, Hlk. apply Hup.
+      * rewrite Hlk. exact Hwdown.
+      * intros Hwh. rewrite Hlk, !Hpar. unfold pchg. rewrite Hgo by congruence. apply Hwup. exact Hwh.
+      * intros c. rewrite Hc. intros Hcc Hne. rewrite Hlk, !Hpar.
+        destruct (Hdown c Hcc Hne) as [[-> H]|H]; [|right; exact H].
+        left. split; [reflexivity|]. unfold pchg. rewrite Hgo by congruence. exact H.
+  - (* PDeliver src dst *)
+    apply step_deliver in Hstep as (u & rest & Hl0 & _ & Hc & _ & Hg & Hl); [|exact Hnd].
+    assert (Hgo : forall q, q <> dst -> pget s' q = pget s q) by (intros q Hq; rewrite Hg; destruct (decide (q = dst)); [contradiction|reflexivity]).
+    assert (Hgd : pget s' dst = pdel_peer u (pget s dst)) by (rewrite Hg; destruct (decide (dst = dst)); [reflexivity|contradiction]).
+    assert (Hpd : ppar s' dst = Some u) by (unfold ppar; rewrite Hgd; apply par_pdel).
+    assert (Hends : (src = host /\ dst ∈ pconn s) \/ (dst = host /\ src ∈ pconn s)).
+    { apply (wf_link s src dst Hwf). rewrite Hl0. discriminate. }
+    assert (Hquiet' : forall q, q <> w -> parmed s' q = false).
+    { intros q Hq. rewrite parmed_rarmed. destruct (decide (q = dst)) as [->|Hqd].
+      - rewrite Hgd. apply rarmed_pdel. rewrite <- parmed_rarmed. apply Hquiet. exact Hq.
+      - rewrite Hgo by exact Hqd. rewrite <- parmed_rarmed. apply Hquiet. exact Hq. }
+    destruct Hends as [[-> Hdc]|[-> Hsc]].
+    + (* host -> dst: dst is not the writer *)
+      pose proof (wf_conn_ne s dst Hwf Hdc) as Hdh.
+      assert (Hdw : dst <> w).
+      { intros ->. rewrite (Hwdown Hdh) in Hl0. discriminate. }
+      assert (Hlk : forall a b, plink s' a b = if decide ((a, b) = (host, dst)) then rest else plink s a b).
+      { intros a b. rewrite Hl. destruct (decide (dst = host /\ _)) as [[E _]|_]; [contradiction|]. apply app_nil_r. }
+      split; [|unfold ppar; rewrite Hgo by congruence; reflexivity]. split.
+      * unfold ppeers. rewrite Hc. exact Hw.
+      * unfold ptok. rewrite Hgo by congruence. exact Htok.
+      * exact Hquiet'.
+      * intros c. rewrite Hc. intros Hcc Hne. rewrite Hlk.
+        destruct (decide ((c, host) = (host, dst))) as [E|_]; [|apply Hup; assumption].
+        exfalso. injection E as -> _. eapply wf_host; eauto.
+      * intros Hwh. rewrite Hlk. destruct (decide ((host, w) = (host, dst))) as [E|_]; [congruence|]. apply Hwdown. exact Hwh.
+      * intros Hwh. rewrite Hlk. destruct (decide ((w, host) = (host, dst))) as [E|_]; [congruence|].
+        unfold pchg, ppar. rewrite (Hgo w), (Hgo host) by congruence. apply Hwup. exact Hwh.
+      * intros c. rewrite Hc. intros Hcc Hne.
+        assert (Hch : pchg s' host = pchg s host) by (unfold pchg; rewrite Hgo by congruence; reflexivity).
+        assert (Hph : ppar s' host = ppar s host) by (unfold ppar; rewrite Hgo by congruence; reflexivity).
+        rewrite Hch, Hph, Hlk. destruct (Hdown c Hcc Hne) as [H|H]; [left; exact H|]. right.
+        destruct (decide ((host, c) = (host, dst))) as [E|Hn].
+        -- injection E as ->. rewrite Hpd. rewrite Hl0 in H. exact H.
+        -- unfold ppar at 1. rewrite Hgo by congruence. exact H.
+    + (* src -> host: src is the writer, a client; the host relays to everybody else *)
+      pose proof (wf_conn_ne s src Hwf Hsc) as Hsh.
+      assert (src = w) as -> by (destruct (decide (src = w)) as [E|Hne]; [exact E|rewrite (Hup src Hsc Hne) in Hl0; discriminate]).
+      split; [|unfold ppar; rewrite Hgo by exact Hsh; reflexivity]. split.
+      * unfold ppeers. rewrite Hc. exact Hw.
+      * unfold ptok. rewrite Hgo by exact Hsh. exact Htok.
+      * exact Hquiet'.
+      * intros c. rewrite Hc. intros Hcc Hne. rewrite Hl. pose proof (wf_conn_ne s c Hwf Hcc) as Hch.
+        destruct (decide ((c, host) = (w, host))) as [E|_]; [congruence|].
+        destruct (decide (host = host /\ c = host /\ _)) as [(_ & E & _)|_]; [contradiction|].
+        rewrite app_nil_r. apply Hup; assumption.
+      * intros _. rewrite Hl. destruct (decide ((host, w) = (w, host))) as [E|_]; [congruence|].
+        destruct (decide (host = host /\ host = host /\ w ∈ pothers w (pconn s))) as [(_ & _ & E)|_].
+        -- apply elem_of_pothers in E. tauto.
+        -- rewrite app_nil_r. apply Hwdown. exact Hsh.
+      * intros _. rewrite Hl. destruct (decide ((w, host) = (w, host))) as [_|Hn]; [|contradiction].
+        destruct (decide (host = host /\ w = host /\ _)) as [(_ & E & _)|_]; [contradiction|].
+        rewrite app_nil_r.
+        assert (Hcw : pchg s' w = pchg s w) by (unfold pchg; rewrite (Hgo w) by exact Hsh; reflexivity).
+        assert (Hpw : ppar s' w = ppar s w) by (unfold ppar; rewrite (Hgo w) by exact Hsh; reflexivity).
+        rewrite Hcw, Hpw, Hpd.
+        destruct (Hwup Hsh) as [H|H]; [left; exact H|right]. rewrite Hl0 in H. simpl in H. exact H.
+      * intros c. rewrite Hc. intros Hcc Hne. right. rewrite Hl, Hpd.
+        destruct (decide ((host, c) = (w, host))) as [E|_]; [congruence|].
+        destruct (decide (host = host /\ host = host /\ c ∈ pothers w (pconn s))) as [_|Hn].
+        -- apply last_or_snoc.
+        -- exfalso. apply Hn. split; [reflexivity|]. split; [reflexivity|]. apply elem_of_pothers. auto.
+  - (* PJoin c *)
+    pose proof (join_par s c s' ) as Hpar. specialize (fun q => Hpar q Hstep).
+    pose proof (join_chg s c s' ) as Hchg. specialize (fun q => Hchg q Hstep).
+    apply step_join in Hstep as (Hch & Hcn & Hnone & Hc & _ & Hg & Hl).
+    assert (Hcw : c <> w) by (intros ->; destruct Hw as [E|E]; contradiction).
+    split; [|apply Hpar]. split.
+    + unfold ppeers. rewrite Hc. destruct Hw as [E|E]; [left; exact E|right; apply elem_of_app; left; exact E].
+    + unfold ptok. rewrite Hg. exact Htok.
+    + intros q Hq. rewrite parmed_rarmed, Hg, <- parmed_rarmed. apply Hquiet. exact Hq.
+    + intros c0. rewrite Hc. intros Hcc Hne. rewrite Hl.
+      destruct (decide ((c0, host) = (host, c))) as [E|_]; [congruence|].
+      apply elem_of_app in Hcc as [Hcc|Hcc]; [apply Hup; assumption|].
+      apply elem_of_list_singleton in Hcc. subst c0. apply (wf_link_nil s c host Hwf Hcn (wf_host s Hwf)).
+    + intros Hwh. rewrite Hl. destruct (decide ((host, w) = (host, c))) as [E|_]; [congruence|]. apply Hwdown. exact Hwh.
+    + intros Hwh. rewrite Hl, Hchg, !Hpar. destruct (decide ((w, host) = (host, c))) as [E|_]; [congruence|]. apply Hwup. exact Hwh.
+    + intros c0. rewrite Hc. intros Hcc Hne. rewrite Hl, Hchg, !Hpar.
+      apply elem_of_app in Hcc as [Hcc|Hcc].
+      * destruct (decide ((host, c0) = (host, c))) as [E|_]; [congruence|]. apply Hdown; assumption.
+      * apply elem_of_list_singleton in Hcc. subst c0. right.
+        destruct (decide ((host, c) = (host, c))) as [_|Hn]; [|contradiction].
+        rewrite (wf_link_nil s host c Hwf (wf_host s Hwf) Hcn). unfold ppar at 2. rewrite (pget_none _ _ Hnone).
+        destruct (ppar s host); reflexivity.
+Qed.
+
+(* ================================================================================================
+   Part 8: histories (C05).  [PhI w t s]: w = the peer that issued the last PSet (None: nothing has
+   ever been set), t = the parent it gave.
    ================================================================================================ *)
 
 Definition Ph0 (s : pstate) : Prop :=
   (forall a b, plink s a b = []) /\ (forall p, pchg s p = false /\ ppar s p = None).
-Definition PhI (t : option puid) (s : pstate) : Prop :=
-  match t with Some u => Ph u s | None => Ph0 s end.
+Definition PhI (w : option peer) (t : option puid) (s : pstate) : Prop :=
+  match w with Some w => Bk w s /\ ppar s w = t | None => Ph0 s /\ t = None end.
 
 Lemma ph0_quiescent s : Ph0 s -> pquiescent s.
 Proof. intros [Hl Hp]. apply quiescent_intro; [exact Hl|]. intros p. apply Hp. Qed.
 
 Lemma ph0_init n : Ph0 (pinit n).
 Proof. split; [intros a b; reflexivity|]. intros p. unfold pchg, ppar. rewrite pinit_pget. auto. Qed.
-
-Lemma phI_quiescent_agree t s : PhI t s -> pquiescent s -> Agree s t.
-Proof.
-  destruct t as [u|]; simpl; intros HP Hq.
-  - apply ph_quiescent_agree; assumption.
-  - intros p _. apply HP.
-Qed.
 
 Lemma ph0_join s c s' : Ph0 s -> pstep s (PJoin c) = Some s' -> Ph0 s'.
 Proof.
@@ -1168,211 +1486,166 @@ Proof.
   - intros p. rewrite Hpar, Hchg. apply Hp.
 Qed.
 
+Lemma phI_quiescent_agree w t s : PhI w t s -> pquiescent s -> Agree s t.
+Proof.
+  destruct w as [w|]; simpl; intros [HP Ht] Hq; subst t.
+  - apply bk_quiescent_agree; assumption.
+  - intros p _. apply HP.
+Qed.
+
 (* what the history must respect at each event *)
-Definition ev_ok (t : option puid) (s : pstate) (e : pevent) : Prop :=
-  match e with
-  | PSet _ u => pquiescent s \/ t = Some u
-  | PJoin _ => ppar s host = None \/ ppar s host = t
-  | _ => True
+Definition ev_ok (w : option peer) (s : pstate) (e : pevent) : Prop :=
+  match e, w with
+  | PSet p _, Some q => q = p \/ pquiescent s
+  | _, _ => True
   end.
 Definition next_target (t : option puid) (e : pevent) : option puid :=
   match e with PSet _ u => Some u | _ => t end.
+Definition next_writer (w : option peer) (e : pevent) : option peer :=
+  match e with PSet p _ => Some p | _ => w end.
 
-Lemma phI_step t s e s' :
-  pwf s -> PhI t s -> ev_ok t s e -> pstep s e = Some s' -> PhI (next_target t e) s'.
+Lemma set_peer_exists s p u s' : pwf s -> pstep s (PSet p u) = Some s' -> ppeers s p.
+Proof. intros Hwf Hstep. apply step_set in Hstep as (Hp & _). apply (wf_exists s p Hwf). exact Hp. Qed.
+
+Lemma phI_step w t s e s' :
+  pwf s -> psync_inv s -> PhI w t s -> ev_ok w s e -> pstep s e = Some s' ->
+  PhI (next_writer w e) (next_target t e) s'.
 Proof.
-  intros Hwf HP Hok Hstep. destruct e as [p u|p|src dst|c]; simpl in Hok |- *.
-  - destruct Hok as [Hq| ->]; [eapply ph_set_quiescent; eauto|eapply ph_set_same; eauto].
-  - destruct t as [u|]; simpl in HP |- *; [eapply ph_announce; eauto|].
-    destruct (quiescent_is_stable s (ph0_quiescent s HP) _ _ Hstep) as [[]| ->]. exact HP.
-  - destruct t as [u|]; simpl in HP |- *; [eapply ph_deliver; eauto|].
-    destruct (quiescent_is_stable s (ph0_quiescent s HP) _ _ Hstep) as [[]| ->]. exact HP.
-  - destruct t as [u|]; simpl in HP, Hok |- *; [eapply ph_join; eauto|eapply ph0_join; eauto].
+  intros Hwf Hinv HP Hok Hstep.
+  assert (Hnew : forall p u x, e = PSet p u -> pquiescent s -> Agree s x -> PhI (Some p) (Some u) s').
+  { intros p u x -> Hq Ha. pose proof (set_peer_exists s p u s' Hwf Hstep) as Hp.
+    pose proof (bk_start s x p Hinv Hq Ha Hp) as HB.
+    destruct (bk_step p s (PSet p u) s' Hwf Hinv HB Hstep eq_refl) as [HB' Hpar]. split; assumption. }
+  destruct w as [w|]; simpl in HP; destruct HP as [HP Ht].
+  - destruct e as [p u|p|src dst|c]; simpl in Hok |- *.
+    + destruct (decide (w = p)) as [->|Hne].
+      * destruct (bk_step p s (PSet p u) s' Hwf Hinv HP Hstep eq_refl) as [HB' Hpar]. split; assumption.
+      * destruct Hok as [E|Hq]; [contradiction|].
+        apply (Hnew p u (ppar s w) eq_refl Hq). apply bk_quiescent_agree; assumption.
+    + destruct (bk_step w s (PAnnounce p) s' Hwf Hinv HP Hstep I) as [HB' Hpar]. split; [exact HB'|congruence].
+    + destruct (bk_step w s (PDeliver src dst) s' Hwf Hinv HP Hstep I) as [HB' Hpar]. split; [exact HB'|congruence].
+    + destruct (bk_step w s (PJoin c) s' Hwf Hinv HP Hstep I) as [HB' Hpar]. split; [exact HB'|congruence].
+  - pose proof (ph0_quiescent s HP) as Hq. destruct e as [p u|p|src dst|c]; simpl.
+    + apply (Hnew p u None eq_refl Hq). intros q _. apply HP.
+    + destruct (quiescent_is_stable s Hq _ _ Hstep) as [[]| ->]. split; assumption.
+    + destruct (quiescent_is_stable s Hq _ _ Hstep) as [[]| ->]. split; assumption.
+    + split; [eapply ph0_join; eauto|exact Ht].
 Qed.
 
 Lemma target_after_cons t e tr : target_after t (e :: tr) = target_after (next_target t e) tr.
 Proof. unfold target_after. simpl. destruct e; reflexivity. Qed.
+Lemma writer_after_cons w e tr : writer_after w (e :: tr) = writer_after (next_writer w e) tr.
+Proof. unfold writer_after. simpl. destruct e; reflexivity. Qed.
 
-Lemma scan_ev_ok t s e s' tr :
-  pstep s e = Some s' -> s19_from t s (e :: tr) = false -> js_from t s (e :: tr) = true ->
-  ev_ok t s e /\ s19_from (next_target t e) s' tr = false /\ js_from (next_target t e) s' tr = true.
+Lemma scan_ev_ok w s e s' tr :
+  pstep s e = Some s' -> wds_from w s (e :: tr) = true ->
+  ev_ok w s e /\ wds_from (next_writer w e) s' tr = true.
 Proof.
-  intros Hstep H19 Hjs. simpl in H19, Hjs. rewrite Hstep in H19, Hjs.
-  destruct e as [p u|p|src dst|c]; simpl; try (split; [exact I|split; assumption]).
-  - apply orb_false_iff in H19 as [Ha Hb]. split; [|split; assumption].
-    apply andb_false_iff in Ha as [Ha|Ha]; apply negb_false_iff in Ha.
-    + left. apply (bool_decide_eq_true_1 (pquiescent s)). exact Ha.
-    + right. apply bool_decide_eq_true in Ha. exact Ha.
-  - apply andb_true_iff in Hjs as [Ha Hb]. split; [|split; assumption].
-    apply bool_decide_eq_true in Ha. exact Ha.
+  intros Hstep H. simpl in H. rewrite Hstep in H.
+  destruct e as [p u|p|src dst|c]; simpl; try (split; [destruct w; exact I|exact H]).
+  apply andb_true_iff in H as [Ha Hb]. split; [|exact Hb].
+  destruct w as [q|]; [|exact I]. apply orb_true_iff in Ha as [Ha|Ha].
+  - left. apply bool_decide_eq_true in Ha. exact Ha.
+  - right. apply (bool_decide_eq_true_1 (pquiescent s)). exact Ha.
 Qed.
 
-Lemma C05_general tr : forall t s s',
-  pwf s -> PhI t s -> s19_from t s tr = false -> js_from t s tr = true -> prun s tr = Some s' ->
-  pwf s' /\ PhI (target_after t tr) s'.
+Lemma C05_general tr : forall w t s s',
+  pwf s -> psync_inv s -> PhI w t s -> wds_from w s tr = true -> prun s tr = Some s' ->
+  pwf s' /\ psync_inv s' /\ PhI (writer_after w tr) (target_after t tr) s'.
 Proof.
-  induction tr as [|e tr IH]; intros t s s' Hwf HP H19 Hjs Hrun.
-  - simpl in Hrun. injection Hrun as <-. split; assumption.
+  induction tr as [|e tr IH]; intros w t s s' Hwf Hinv HP Hwds Hrun.
+  - simpl in Hrun. injection Hrun as <-. auto.
   - simpl in Hrun. destruct (pstep s e) as [s1|] eqn:Hs; [|discriminate].
-    destruct (scan_ev_ok t s e s1 tr Hs H19 Hjs) as (Hok & H19' & Hjs').
-    rewrite target_after_cons. apply (IH _ s1); try assumption.
+    destruct (scan_ev_ok w s e s1 tr Hs Hwds) as (Hok & Hwds').
+    rewrite target_after_cons, writer_after_cons. apply (IH _ _ s1); try assumption.
     + eapply step_wf; eauto.
+    + eapply step_sync_inv; eauto.
     + eapply phI_step; eauto.
 Qed.
 
-Lemma s19_from_prefix t s tr1 tr2 : s19_from t s (tr1 ++ tr2) = false -> s19_from t s tr1 = false.
+Lemma wds_from_prefix w s tr1 tr2 : wds_from w s (tr1 ++ tr2) = true -> wds_from w s tr1 = true.
 Proof.
-  revert t s. induction tr1 as [|e tr1 IH]; intros t s H; simpl in *; [reflexivity|].
-  destruct (pstep s e) as [s1|]; [|reflexivity]. destruct e; eauto.
-  apply orb_false_iff in H as [Ha Hb]. rewrite Ha. simpl. eauto.
-Qed.
-
-Lemma js_from_prefix t s tr1 tr2 : js_from t s (tr1 ++ tr2) = true -> js_from t s tr1 = true.
-Proof.
-  revert t s. induction tr1 as [|e tr1 IH]; intros t s H; simpl in *; [reflexivity|].
+  revert w s. induction tr1 as [|e tr1 IH]; intros w s H; simpl in *; [reflexivity|].
   destruct (pstep s e) as [s1|]; [|reflexivity]. destruct e; eauto.
   apply andb_true_iff in H as [Ha Hb]. rewrite Ha. simpl. eauto.
 Qed.
 
-Lemma js_from_nojoin t s tr : pjoiners tr = [] -> js_from t s tr = true.
+Lemma wds_from_drain w s tr : Forall drain_event tr -> wds_from w s tr = true.
 Proof.
-  revert t s. induction tr as [|e tr IH]; intros t s H; simpl in *; [reflexivity|].
-  destruct (pstep s e) as [s1|]; [|reflexivity]. destruct e; simpl in H; try discriminate; eauto.
+  intros Hd. revert s. induction Hd as [|e tr He Hd IH]; intros s; simpl; [reflexivity|].
+  destruct (pstep s e) as [s1|]; [|reflexivity]. destruct e; simpl in He; try contradiction; apply IH.
 Qed.
 
-(* a join at a quiescent state of a history outside [known_S19] is safe *)
-Lemma joins_quiescent_safe tr : forall t s,
-  pwf s -> PhI t s -> s19_from t s tr = false -> joins_quiescent s tr = true -> js_from t s tr = true.
+Lemma pinit_general n tr s' :
+  prun (pinit n) tr = Some s' -> writers_drain_separated (pinit n) tr = true ->
+  pwf s' /\ psync_inv s' /\ PhI (writer_after None tr) (last_set tr) s'.
 Proof.
-  induction tr as [|e tr IH]; intros t s Hwf HP H19 Hjq; [reflexivity|].
-  simpl in *. destruct (pstep s e) as [s1|] eqn:Hs; [|reflexivity].
-  pose proof (step_wf s e s1 Hwf Hs) as Hwf1.
-  destruct e as [p u|p|src dst|c].
-  - apply orb_false_iff in H19 as [Ha Hb]. apply (IH _ s1 Hwf1); [|exact Hb|exact Hjq].
-    apply (phI_step t s (PSet p u) s1 Hwf HP); [|exact Hs]. simpl.
-    apply andb_false_iff in Ha as [Ha|Ha]; apply negb_false_iff in Ha.
-    + left. apply (bool_decide_eq_true_1 (pquiescent s)). exact Ha.
-    + right. apply bool_decide_eq_true in Ha. exact Ha.
-  - apply (IH _ s1 Hwf1); [|exact H19|exact Hjq]. apply (phI_step t s (PAnnounce p) s1 Hwf HP I Hs).
-  - apply (IH _ s1 Hwf1); [|exact H19|exact Hjq]. apply (phI_step t s (PDeliver src dst) s1 Hwf HP I Hs).
-  - apply andb_true_iff in Hjq as [Hq Hjq]. apply (bool_decide_eq_true_1 (pquiescent s)) in Hq.
-    assert (Hh : ppar s host = t) by (apply (phI_quiescent_agree t s HP Hq); left; reflexivity).
-    apply andb_true_iff. split; [apply bool_decide_eq_true; right; exact Hh|].
-    apply (IH _ s1 Hwf1); [|exact H19|exact Hjq].
-    apply (phI_step t s (PJoin c) s1 Hwf HP); [|exact Hs]. simpl. right. exact Hh.
+  intros Hrun Hwds.
+  apply (C05_general tr None None (pinit n) s' (pinit_wf n) (pinit_sync_inv n)); [|exact Hwds|exact Hrun].
+  split; [apply ph0_init|reflexivity].
 Qed.
 
-(* on histories without joins [known_S19] is literally "two PSet with different parents and no
-   quiescent state in between" *)
-Lemma s19_lit_from_eq tr : forall g t s,
-  pjoiners tr = [] -> (pquiescent s \/ exists u', g = Some u' /\ t = Some u') ->
-  s19_lit_from g s tr = s19_from t s tr.
+(* THEOREM 5 (C05): operations on the child's parent by any peers, with any parents; operations of one
+   and the same peer at ANY pace (A -> B -> A included); an operation of a peer other than the author
+   of the previous one is issued at a quiescent state; clients join at ANY moment.  Then at every
+   quiescent state all peers have the parent given by the last operation. *)
+Theorem C05_converges n tr s' :
+  prun (pinit n) tr = Some s' -> writers_drain_separated (pinit n) tr = true ->
+  pquiescent s' -> forall p, ppeers s' p -> ppar s' p = last_set tr.
 Proof.
-  induction tr as [|e tr IH]; intros g t s Hj Hinv; [reflexivity|].
-  cbn [s19_lit_from s19_from]. destruct (pstep s e) as [s1|] eqn:Hs; [|reflexivity].
-  destruct e as [p u|p|src dst|c]; [| | |simpl in Hj; discriminate].
-  - rewrite (IH (Some u) (Some u) s1 Hj) by (right; eauto). f_equal.
-    unfold pquiescentb. destruct (decide (pquiescent s)) as [Hq|Hq].
-    + rewrite (bool_decide_eq_true_2 _ Hq). reflexivity.
-    + rewrite (bool_decide_eq_false_2 _ Hq). destruct Hinv as [Hq'|(u' & -> & ->)]; [contradiction|].
-      simpl. f_equal. apply bool_decide_ext. split; congruence.
-  - apply IH; [exact Hj|]. unfold pquiescentb. destruct (decide (pquiescent s)) as [Hq|Hq].
-    + destruct (quiescent_is_stable s Hq _ _ Hs) as [[]| ->]. left. exact Hq.
-    + rewrite (bool_decide_eq_false_2 _ Hq). destruct Hinv as [Hq'|Hr]; [contradiction|right; exact Hr].
-  - apply IH; [exact Hj|]. unfold pquiescentb. destruct (decide (pquiescent s)) as [Hq|Hq].
-    + destruct (quiescent_is_stable s Hq _ _ Hs) as [[]| ->]. left. exact Hq.
-    + rewrite (bool_decide_eq_false_2 _ Hq). destruct Hinv as [Hq'|Hr]; [contradiction|right; exact Hr].
+  intros Hrun Hwds Hq. destruct (pinit_general n tr s' Hrun Hwds) as (_ & _ & HP).
+  apply (phI_quiescent_agree _ _ _ HP Hq).
 Qed.
-
-Lemma known_S19_literal_nojoin n tr :
-  pjoiners tr = [] -> known_S19_literal (pinit n) tr = known_S19 (pinit n) tr.
-Proof. intros Hj. apply s19_lit_from_eq; [exact Hj|]. left. apply pinit_quiescent. Qed.
-
-Lemma pinit_host_par n : ppar (pinit n) host = None.
-Proof. unfold ppar. rewrite pinit_pget. reflexivity. Qed.
-
-(* C05, histories: operations on the child's parent by any peers, to any parents, each issued at a
-   quiescent state (or repeating the parent of the previous one), joins while the host has no parent
-   or already the last one: at every quiescent state all peers agree on the parent given by the
-   last PSet. *)
-Theorem C05_drain_separated_converge n tr s' :
-  prun (pinit n) tr = Some s' ->
-  known_S19 (pinit n) tr = false -> joins_safe (pinit n) tr = true ->
-  pquiescent s' -> Agree s' (last_set tr).
-Proof.
-  unfold known_S19, joins_safe. rewrite pinit_host_par. intros Hrun H19 Hjs Hq.
-  destruct (C05_general tr None (pinit n) s' (pinit_wf n) (ph0_init n) H19 Hjs Hrun) as [_ HP].
-  apply phI_quiescent_agree; assumption.
-Qed.
-Print Assumptions C05_drain_separated_converge.
+Print Assumptions C05_converges.
 
 Theorem C05_every_quiescent_state n tr1 tr2 s1 :
-  prun (pinit n) tr1 = Some s1 ->
-  known_S19 (pinit n) (tr1 ++ tr2) = false -> joins_safe (pinit n) (tr1 ++ tr2) = true ->
-  pquiescent s1 -> Agree s1 (last_set tr1).
+  prun (pinit n) tr1 = Some s1 -> writers_drain_separated (pinit n) (tr1 ++ tr2) = true ->
+  pquiescent s1 -> forall p, ppeers s1 p -> ppar s1 p = last_set tr1.
 Proof.
-  intros Hrun H19 Hjs. apply (C05_drain_separated_converge n tr1 s1 Hrun).
-  - eapply s19_from_prefix. exact H19.
-  - eapply js_from_prefix. exact Hjs.
+  intros Hrun Hwds. apply (C05_converges n tr1 s1 Hrun). eapply wds_from_prefix. exact Hwds.
+Qed.
+Print Assumptions C05_every_quiescent_state.
+
+Lemma phI_drain_run w t tr : forall s s',
+  pwf s -> psync_inv s -> PhI w t s -> Forall drain_event tr -> prun s tr = Some s' -> PhI w t s'.
+Proof.
+  intros s s' Hwf Hinv HP Hd Hrun.
+  destruct (C05_general tr w t s s' Hwf Hinv HP (wds_from_drain w s tr Hd) Hrun) as (_ & _ & H).
+  assert (E1 : writer_after w tr = w).
+  { clear -Hd. revert w. induction Hd as [|e tr He _ IH]; intros w; [reflexivity|].
+    rewrite writer_after_cons. destruct e; simpl in He; try contradiction; apply IH. }
+  assert (E2 : target_after t tr = t).
+  { clear -Hd. revert t. induction Hd as [|e tr He _ IH]; intros t; [reflexivity|].
+    rewrite target_after_cons. destruct e; simpl in He; try contradiction; apply IH. }
+  rewrite E1, E2 in H. exact H.
 Qed.
 
-Corollary C05_drain_separated_no_joins n tr s' :
-  prun (pinit n) tr = Some s' -> known_S19 (pinit n) tr = false -> pjoiners tr = [] ->
-  pquiescent s' -> Agree s' (last_set tr).
-Proof. intros Hrun H19 Hj. apply (C05_drain_separated_converge n tr s' Hrun H19). apply js_from_nojoin. exact Hj. Qed.
-
-Corollary C05_drain_separated_joins_quiescent n tr s' :
-  prun (pinit n) tr = Some s' -> known_S19 (pinit n) tr = false -> joins_quiescent (pinit n) tr = true ->
-  pquiescent s' -> Agree s' (last_set tr).
-Proof.
-  intros Hrun H19 Hj. apply (C05_drain_separated_converge n tr s' Hrun H19).
-  unfold known_S19, joins_safe in *. rewrite pinit_host_par in *.
-  apply (joins_quiescent_safe tr None (pinit n) (pinit_wf n) (ph0_init n) H19 Hj).
-Qed.
-
-(* ... and such a history never leaves the exchange running for ever: after it, the pending
-   exchange can be completed, ends with the last parent everywhere, every effective event decreases
-   the measure, and there is no infinite continuation by announce / deliver events *)
-Theorem C05_drain_separated_terminates n tr s' :
-  prun (pinit n) tr = Some s' ->
-  known_S19 (pinit n) tr = false -> joins_safe (pinit n) tr = true ->
-  (exists tr2 s'', Forall drain_event tr2 /\ prun s' tr2 = Some s'' /\ pquiescent s'' /\ Agree s'' (last_set tr)) /\
+(* ... and after ANY such history (quiescent or not) the exchange in progress terminates, whatever
+   the schedule, with the last parent everywhere *)
+Theorem C05_terminates n tr s' :
+  prun (pinit n) tr = Some s' -> writers_drain_separated (pinit n) tr = true ->
+  (* every continuation by announce / deliver events that reaches a quiescent state agrees on the last parent *)
+  (forall tr2 s'', Forall drain_event tr2 -> prun s' tr2 = Some s'' -> pquiescent s'' ->
+     forall p, ppeers s'' p -> ppar s'' p = last_set tr) /\
+  (* at most [pmeasure s'] of its events do anything, at most [ppotential n' s'] messages are sent *)
+  (forall tr2 s'', Forall drain_event tr2 -> prun s' tr2 = Some s'' ->
+     peffective_count s' tr2 <= pmeasure s' /\ ptotal_sent s' tr2 <= ppotential (length (pconn s')) s') /\
+  (* one of them does reach a quiescent state *)
+  (exists tr2 s'', Forall drain_event tr2 /\ prun s' tr2 = Some s'' /\ pquiescent s'') /\
+  (* and none goes on for ever *)
   (forall (st : nat -> pstate) (ev : nat -> pevent), st 0 = s' ->
      (forall i, drain_event (ev i) /\ effective (st i) (ev i) = true /\ pstep (st i) (ev i) = Some (st (S i))) -> False).
 Proof.
-  unfold known_S19, joins_safe. rewrite pinit_host_par. intros Hrun H19 Hjs.
-  destruct (C05_general tr None (pinit n) s' (pinit_wf n) (ph0_init n) H19 Hjs Hrun) as [Hwf HP].
-  fold (last_set tr) in HP. destruct (last_set tr) as [u|]; simpl in HP.
-  - split.
-    + destruct (drain_terminates u (pmeasure u s') s' (le_n _) Hwf HP) as (tr2 & s'' & Hd2 & Hrun2 & Hq2).
-      exists tr2, s''. split; [exact Hd2|]. split; [exact Hrun2|]. split; [exact Hq2|].
-      destruct (drain_run u tr2 s' s'' Hwf HP Hd2 Hrun2) as (_ & HP'' & _). apply ph_quiescent_agree; assumption.
-    + intros st ev H0 Hinf. apply (no_infinite_exchange u st ev); rewrite ?H0; assumption.
-  - pose proof (ph0_quiescent s' HP) as Hq. split.
-    + exists [], s'. split; [constructor|]. split; [reflexivity|]. split; [exact Hq|]. intros p _. apply HP.
-    + intros st ev H0 Hinf. destruct (Hinf 0) as (He & Heff & Hs). rewrite H0 in Heff, Hs.
-      destruct (ev 0) as [p u|p|src dst|c]; simpl in He; try contradiction.
-      * simpl in Heff. rewrite (quiescent_chg _ _ Hq) in Heff. discriminate.
-      * simpl in Hs. rewrite (quiescent_link _ _ _ Hq) in Hs. discriminate.
+  intros Hrun Hwds. destruct (pinit_general n tr s' Hrun Hwds) as (Hwf & Hinv & HP).
+  split; [|split; [|split]].
+  - intros tr2 s'' Hd Hrun2 Hq.
+    apply (phI_quiescent_agree (writer_after None tr) (last_set tr) s''); [|exact Hq].
+    apply (phI_drain_run _ _ tr2 s' s'' Hwf Hinv HP Hd Hrun2).
+  - intros tr2 s'' Hd Hrun2. destruct (drain_run _ tr2 s' s'' Hwf (le_n _) Hd Hrun2) as (_ & _ & H1 & H2). lia.
+  - apply drain_terminates. exact Hwf.
+  - intros st ev H0 Hinf. apply (no_infinite_exchange st ev); [rewrite H0; exact Hwf|exact Hinf].
 Qed.
-Print Assumptions C05_drain_separated_terminates.
-
-(* non-vacuity: three operations by three different peers (host included) and a join *)
-Definition ex_history : list pevent :=
-  (ex_single ++
-   [PSet 2 9; PAnnounce 2; PDeliver 2 0; PDeliver 0 1; PAnnounce 0; PAnnounce 1; PDeliver 1 0;
-    PDeliver 0 1; PDeliver 0 2; PDeliver 0 2;
-    PJoin 3; PDeliver 0 3; PAnnounce 3; PDeliver 3 0; PDeliver 0 1; PDeliver 0 2;
-    PSet 0 4; PSet 3 4; PAnnounce 0; PAnnounce 3])%N.
-Example C05_drain_separated_nonvacuous :
-  (fun s => pview s [0; 1; 2; 3]%N) <$> prun (pinit 2) ex_history
-    = Some ([Some 4; Some 9; Some 9; Some 4]%N, false) /\
-  known_S19 (pinit 2) ex_history = false /\ joins_safe (pinit 2) ex_history = true /\
-  joins_quiescent (pinit 2) ex_history = true /\
-  psets ex_history = [(1, 7); (2, 9); (0, 4); (3, 4)]%N /\ last_set ex_history = Some 4%N /\
-  (fun s => pview s [0; 1; 2; 3]%N) <$> prun (pinit 2) (take 26 ex_history)
-    = Some ([Some 9; Some 9; Some 9; Some 9]%N, true).
-Proof. vm_compute. auto 10. Qed.
+Print Assumptions C05_terminates.
 
 (* ================================================================================================
    Part 9: joins
@@ -1402,153 +1675,215 @@ Proof.
   apply elem_of_app. right. apply elem_of_list_singleton. reflexivity.
 Qed.
 
-(* a client that joins during a history of drain-separated operations -- at any quiescent state,
-   and also in the middle of an exchange provided the host has no parent yet or already the new
-   one -- ends with the host's parent, the one given by the last PSet *)
+(* a client that joins at ANY moment of such a history -- in the middle of an exchange, between a
+   set_parent on the host and its announcement, ... -- ends with the host's parent, the last one *)
 Theorem join_gets_parent n tr1 c tr2 s' :
   let tr := tr1 ++ PJoin c :: tr2 in
-  prun (pinit n) tr = Some s' ->
-  known_S19 (pinit n) tr = false -> joins_safe (pinit n) tr = true ->
+  prun (pinit n) tr = Some s' -> writers_drain_separated (pinit n) tr = true ->
   pquiescent s' -> ppar s' c = ppar s' host /\ ppar s' c = last_set tr.
 Proof.
-  intros tr Hrun H19 Hjs Hq.
-  pose proof (C05_drain_separated_converge n tr s' Hrun H19 Hjs Hq) as Ha.
+  intros tr Hrun Hwds Hq.
+  pose proof (C05_converges n tr s' Hrun Hwds Hq) as Ha.
   rewrite (Ha c), (Ha host); [auto|left; reflexivity|right; eapply joined_connected; exact Hrun].
 Qed.
 Print Assumptions join_gets_parent.
 
-Corollary join_gets_parent_quiescent_joins n tr1 c tr2 s' :
-  let tr := tr1 ++ PJoin c :: tr2 in
-  prun (pinit n) tr = Some s' ->
-  known_S19 (pinit n) tr = false -> joins_quiescent (pinit n) tr = true ->
-  pquiescent s' -> ppar s' c = ppar s' host /\ ppar s' c = last_set tr.
+(* ================================================================================================
+   Part 10: non-vacuity; the old witnesses; what is outside the property
+   ================================================================================================ *)
+
+(* Three writers (client 1, the host, client 2), 2 clients at the start, 3 joiners.
+   - client 1 re-parents 7 -> 8 -> 7 at full pace (its announcements interleaved with the PSet);
+   - client 3 joins in the MIDDLE of that exchange (two links in flight towards the host, the host has
+     nothing yet), client 4 after the host applied the first link (the snapshot carries 7, then 8 and 7
+     are relayed);
+   - the host re-parents 4 -> 5 -> 4 WITHOUT its announcing system running in between, and client 5
+     joins between the first set_parent and the announcement (the snapshot carries 4);
+   - client 2 re-parents twice to the same parent. *)
+Definition ex_history : list pevent :=
+  [PSet 1 7; PAnnounce 1; PSet 1 8; PAnnounce 1; PSet 1 7; PJoin 3; PAnnounce 1; PDeliver 1 0; PJoin 4; PDeliver 1 0;
+   PAnnounce 0; PDeliver 1 0; PAnnounce 0; PDeliver 0 2; PAnnounce 2; PDeliver 0 2; PAnnounce 2; PDeliver 0 2;
+   PAnnounce 2; PDeliver 0 3; PAnnounce 3; PDeliver 0 3; PAnnounce 3; PDeliver 0 3; PAnnounce 3; PDeliver 0 4;
+   PAnnounce 4; PDeliver 0 4; PAnnounce 4; PDeliver 0 4; PAnnounce 4;                       (* 31: quiescent, 7 *)
+   PSet 0 4; PJoin 5; PSet 0 5; PSet 0 4; PAnnounce 0; PDeliver 0 1; PAnnounce 1; PDeliver 0 2; PAnnounce 2;
+   PDeliver 0 3; PAnnounce 3; PDeliver 0 4; PAnnounce 4; PDeliver 0 5; PAnnounce 5; PDeliver 0 5;   (* 47: quiescent, 4 *)
+   PSet 2 9; PAnnounce 2; PSet 2 9; PAnnounce 2; PDeliver 2 0; PAnnounce 0; PDeliver 2 0; PDeliver 0 1; PAnnounce 1;
+   PDeliver 0 1; PDeliver 0 3; PAnnounce 3; PDeliver 0 3; PDeliver 0 4; PAnnounce 4; PDeliver 0 4; PDeliver 0 5;
+   PAnnounce 5; PDeliver 0 5]%N.                                                           (* 66: quiescent, 9 *)
+
+Example C05_nonvacuous :
+  writers_drain_separated (pinit 2) ex_history = true /\
+  psets ex_history = [(1, 7); (1, 8); (1, 7); (0, 4); (0, 5); (0, 4); (2, 9); (2, 9)]%N /\
+  pjoiners ex_history = [3; 4; 5]%N /\ last_set ex_history = Some 9%N /\
+  (fun s => pview s [0; 1; 2; 3; 4; 5]%N) <$> prun (pinit 2) ex_history
+    = Some ([Some 9; Some 9; Some 9; Some 9; Some 9; Some 9]%N, true) /\
+  (* the quiescent states in between (C05_every_quiescent_state) *)
+  (fun s => pview s [0; 1; 2; 3; 4]%N) <$> prun (pinit 2) (take 31 ex_history)
+    = Some ([Some 7; Some 7; Some 7; Some 7; Some 7]%N, true) /\
+  (fun s => pview s [0; 1; 2; 3; 4; 5]%N) <$> prun (pinit 2) (take 47 ex_history)
+    = Some ([Some 4; Some 4; Some 4; Some 4; Some 4; Some 4]%N, true) /\
+  (* the joins happen in the middle of exchanges: the state is not quiescent *)
+  pquiescentb <$> prun (pinit 2) (take 5 ex_history) = Some false /\
+  (fun s => (plink s 1 0, ppar s 0))%N <$> prun (pinit 2) (take 5 ex_history) = Some ([7; 8]%N, None) /\
+  pquiescentb <$> prun (pinit 2) (take 8 ex_history) = Some false /\
+  (fun s => (parmed s 0, ppar s 0, ptok s 0))%N <$> prun (pinit 2) (take 32 ex_history) = Some (true, Some 4%N, None) /\
+  (* between two quiescent states no state is quiescent *)
+  forallb (fun s => negb (pquiescentb s)) (tail (removelast (pstates (pinit 2) (take 31 ex_history)))) = true /\
+  ptotal_sent (pinit 2) ex_history = 28.
+Proof. vm_compute. repeat split; reflexivity. Qed.
+
+(* the theorems apply to it *)
+Example C05_nonvacuous_applied s' :
+  prun (pinit 2) ex_history = Some s' -> pquiescent s' ->
+  (forall p, ppeers s' p -> ppar s' p = Some 9%N) /\ ppar s' 3%N = ppar s' host /\ ppar s' 5%N = ppar s' host.
 Proof.
-  intros tr Hrun H19 Hjq. apply (join_gets_parent n tr1 c tr2 s' Hrun H19).
-  unfold known_S19, joins_safe in *. rewrite pinit_host_par in *.
-  apply (joins_quiescent_safe tr None (pinit n) (pinit_wf n) (ph0_init n) H19 Hjq).
+  intros Hrun Hq.
+  assert (Hwds : writers_drain_separated (pinit 2) ex_history = true) by (vm_compute; reflexivity).
+  split; [apply (C05_converges 2 ex_history s' Hrun Hwds Hq)|].
+  split.
+  - apply (join_gets_parent 2 (take 5 ex_history) 3%N (drop 6 ex_history) s' Hrun Hwds Hq).
+  - apply (join_gets_parent 2 (take 32 ex_history) 5%N (drop 33 ex_history) s' Hrun Hwds Hq).
 Qed.
 
-(* non-vacuity: client 3 joins in the MIDDLE of the very first exchange (the host has nothing yet:
-   no snapshot; it is reached by the relay) and client 4 joins after the host got the parent *)
-Definition ex_join_mid : list pevent :=
-  [PSet 1 7; PAnnounce 1; PJoin 3; PDeliver 1 0; PJoin 4; PAnnounce 0;
-   PDeliver 0 2; PDeliver 0 3; PDeliver 0 4; PDeliver 0 1; PDeliver 0 2; PDeliver 0 3; PDeliver 0 4;
-   PAnnounce 2; PAnnounce 3; PAnnounce 4; PDeliver 2 0; PDeliver 3 0; PDeliver 4 0;
-   PDeliver 0 1; PDeliver 0 1; PDeliver 0 1; PDeliver 0 2; PDeliver 0 2; PDeliver 0 3; PDeliver 0 3;
-   PDeliver 0 4; PDeliver 0 4]%N.
-Example join_nonvacuous :
-  (fun s => pview s [0; 1; 2; 3; 4]%N) <$> prun (pinit 2) ex_join_mid
-    = Some ([Some 7; Some 7; Some 7; Some 7; Some 7]%N, true) /\
-  known_S19 (pinit 2) ex_join_mid = false /\ joins_safe (pinit 2) ex_join_mid = true /\
-  joins_quiescent (pinit 2) ex_join_mid = false.
+(* The hole of the FIRST repair (parent_synced = last parent announced or received, not consumed):
+   the host re-parents 1 -> 2 -> 1, a client joins between the last two set_parent, before the host's
+   announcing system runs.  The snapshot carries 2.  With the value token the host's announcement of
+   1 is not suppressed (the host holds no token): the joiner ends with 1. *)
+Definition ex_join_armed_host : list pevent :=
+  [PSet 0 1; PAnnounce 0; PSet 0 2; PJoin 1; PSet 0 1; PAnnounce 0; PDeliver 0 1; PAnnounce 1; PDeliver 0 1; PAnnounce 1]%N.
+Example join_at_armed_host_converges :
+  (fun s => pview s [0; 1]%N) <$> prun (pinit 0) ex_join_armed_host = Some ([Some 1; Some 1]%N, true) /\
+  (fun s => (plink s 0 1, parmed s 0))%N <$> prun (pinit 0) (take 6 ex_join_armed_host) = Some ([2; 1]%N, false) /\
+  writers_drain_separated (pinit 0) ex_join_armed_host = true /\ last_set ex_join_armed_host = Some 1%N.
 Proof. vm_compute. auto. Qed.
 
-(* The statement at full strength -- "at ANY moment" -- is FALSE.  If a client joins while a
-   RE-parenting is in flight and the host still has the old parent, the snapshot carries the old
-   parent; the joiner applies it and (no token for parents) announces it back to the host, which by
-   then has the new parent, finds the old one different, applies it and broadcasts it. *)
-Definition join_gets_parent_statement : Prop :=
-  forall n tr1 c tr2 s',
-    let tr := tr1 ++ PJoin c :: tr2 in
-    prun (pinit n) tr = Some s' -> known_S19 (pinit n) tr = false ->
-    pquiescent s' -> ppar s' c = ppar s' host /\ ppar s' c = last_set tr.
+(* ---- THEOREM 6: the old witnesses no longer loop -------------------------------------------- *)
 
-(* (a) the re-parenting 7 -> 9 is lost on EVERY peer, its author included: quiescent with 7 *)
-Definition ex_join_lost_pre : list pevent :=
-  [PSet 1 7; PAnnounce 1; PDeliver 1 0; PAnnounce 0; PDeliver 0 1;        (* 7 everywhere, quiescent *)
-   PSet 1 9; PAnnounce 1]%N.
+(* any history within the premise, whatever drain follows: a generic corollary for concrete prefixes *)
+Corollary converges_under_every_drain n tr tr2 s'' :
+  writers_drain_separated (pinit n) tr = true -> Forall drain_event tr2 ->
+  prun (pinit n) (tr ++ tr2) = Some s'' -> pquiescent s'' ->
+  forall p, ppeers s'' p -> ppar s'' p = last_set tr.
+Proof.
+  intros Hwds Hd Hrun Hq. rewrite prun_app in Hrun. destruct (prun (pinit n) tr) as [s'|] eqn:Hr; [|discriminate].
+  destruct (C05_terminates n tr s' Hr Hwds) as (H & _). apply (H tr2 s'' Hd Hrun Hq).
+Qed.
+
+Fixpoint iter_tr (k : nat) (loop : list pevent) : list pevent :=
+  match k with O => [] | S k => loop ++ iter_tr k loop end.
+
+(* S19: client 1 makes the child a child of 1, and a frame later of 2 (frames in the order of the
+   real plugin: announce, then apply what was received).  Before the repair the state after
+   [s19_prefix] recurred for ever under the lockstep schedule [s19_loop], 4 messages per period. *)
+Definition s19_prefix : list pevent :=
+  [PSet 1 1; PAnnounce 1;                   (* client frame *)
+   PAnnounce 0; PDeliver 1 0;               (* host frame: applies 1 *)
+   PSet 1 2;
+   PAnnounce 1;                             (* round 1, client: announces 2 *)
+   PAnnounce 0; PDeliver 1 0]%N.            (* round 1, host: (no echo of 1 any more) applies 2 *)
+Definition s19_loop : list pevent :=
+  [PAnnounce 1; PDeliver 0 1; PAnnounce 0; PAnnounce 1; PDeliver 0 1;
+   PAnnounce 0; PDeliver 1 0; PAnnounce 1; PAnnounce 0; PDeliver 1 0]%N.
+
+Example old_pingpong_now_quiescent :
+  (* the prefix is a run of the repaired model too: 2 messages instead of 3, both peers have 2 *)
+  (fun s => pview s [0; 1]%N) <$> prun (pinit 1) s19_prefix = Some ([Some 2; Some 2]%N, false) /\
+  ptotal_sent (pinit 1) s19_prefix = 2 /\
+  (* the old schedule (deliveries with nothing to deliver skipped): quiescent after ONE period, and
+     it stays so: no message is ever sent again *)
+  pview (prun_skip (pinit 1) (s19_prefix ++ s19_loop)) [0; 1]%N = ([Some 2; Some 2]%N, true) /\
+  prun_skip (pinit 1) (s19_prefix ++ iter_tr 5 s19_loop) = prun_skip (pinit 1) (s19_prefix ++ s19_loop) /\
+  (* the only thing left to do after the prefix: the host's announcing system sees its flag *)
+  (fun s => pview s [0; 1]%N) <$> prun (pinit 1) (s19_prefix ++ [PAnnounce 0%N]) = Some ([Some 2; Some 2]%N, true) /\
+  writers_drain_separated (pinit 1) s19_prefix = true /\ last_set s19_prefix = Some 2%N.
+Proof. vm_compute. repeat split; reflexivity. Qed.
+
+(* ... and under EVERY schedule: every drain of the prefix that is quiescent has 2 everywhere, at most
+   1 of its events does anything, it sends nothing *)
+Example old_pingpong_every_drain tr2 s'' :
+  Forall drain_event tr2 -> prun (pinit 1) (s19_prefix ++ tr2) = Some s'' ->
+  (pquiescent s'' -> forall p, ppeers s'' p -> ppar s'' p = Some 2%N) /\
+  ptotal_sent (pinit 1) (s19_prefix ++ tr2) = 2.
+Proof.
+  intros Hd Hrun.
+  assert (Hwds : writers_drain_separated (pinit 1) s19_prefix = true) by (vm_compute; reflexivity).
+  split; [intros Hq; apply (converges_under_every_drain 1 s19_prefix tr2 s'' Hwds Hd Hrun Hq)|].
+  rewrite ptotal_sent_app. rewrite prun_app in Hrun.
+  destruct (prun (pinit 1) s19_prefix) as [s'|] eqn:Hr; [|discriminate].
+  assert (Hsent : ptotal_sent (pinit 1) s19_prefix = 2) by (vm_compute; reflexivity).
+  assert (Hpot : (fun s => ppotential (length (pconn s)) s) <$> prun (pinit 1) s19_prefix = Some 0) by (vm_compute; reflexivity).
+  rewrite Hr in Hpot. simpl in Hpot. injection Hpot as Hpot.
+  destruct (C05_terminates 1 s19_prefix s' Hr Hwds) as (_ & H & _). destruct (H tr2 s'' Hd Hrun) as [_ H2]. lia.
+Qed.
+
+(* the old join-in-flight history: everybody has 7, client 1 re-parents to 9 and announces it, client
+   2 joins while the link is in flight (the snapshot carries the OLD parent 7).  Before the repair
+   the joiner echoed 7 back: the re-parenting was lost everywhere or the exchange went on for ever.
+   (The delivery host -> 1 of the old prefix is gone: the host does not echo any more.) *)
+Definition ex_join_flight_pre : list pevent :=
+  [PSet 1 7; PAnnounce 1; PDeliver 1 0; PAnnounce 0; PSet 1 9; PAnnounce 1; PJoin 2]%N.
+(* the old schedules after the join: the one that lost the re-parenting, and prefix + cycle *)
 Definition ex_join_lost_post : list pevent :=
   [PDeliver 1 0; PDeliver 0 2; PAnnounce 2; PDeliver 2 0; PDeliver 0 1; PAnnounce 0;
    PDeliver 0 2; PDeliver 0 2; PAnnounce 2; PAnnounce 1; PDeliver 0 1; PDeliver 1 0; PDeliver 2 0;
    PDeliver 0 1; PDeliver 0 2]%N.
-
-Theorem join_any_moment_refuted : ~ join_gets_parent_statement.
-Proof.
-  intros H. specialize (H 1 ex_join_lost_pre 2%N ex_join_lost_post).
-  destruct (prun (pinit 1) (ex_join_lost_pre ++ PJoin 2%N :: ex_join_lost_post)) as [s'|] eqn:Hrun.
-  - assert (Hv : (fun s => (pquiescentb s, ppar s 2%N)) <$>
-                 prun (pinit 1) (ex_join_lost_pre ++ PJoin 2%N :: ex_join_lost_post) = Some (true, Some 7%N))
-      by (vm_compute; reflexivity).
-    rewrite Hrun in Hv. simpl in Hv. injection Hv as Hq Hp.
-    destruct (H s' Hrun) as [_ Hbad].
-    + vm_compute. reflexivity.
-    + apply (bool_decide_eq_true_1 (pquiescent s')). exact Hq.
-    + rewrite Hp in Hbad. vm_compute in Hbad. discriminate.
-  - vm_compute in Hrun. discriminate.
-Qed.
-Print Assumptions join_any_moment_refuted.
-
-Example join_lost_shape :
-  let tr := ex_join_lost_pre ++ PJoin 2%N :: ex_join_lost_post in
-  (fun s => pview s [0; 1; 2]%N) <$> prun (pinit 1) tr = Some ([Some 7; Some 7; Some 7]%N, true) /\
-  psets tr = [(1, 7); (1, 9)]%N /\ last_set tr = Some 9%N /\
-  known_S19 (pinit 1) tr = false /\ joins_safe (pinit 1) tr = false.
-Proof. vm_compute. auto. Qed.
-
-(* (b) from the same join the exchange can also go on for ever (lockstep frames: deliver, then
-   announce): a cycle of two rounds with 12 messages *)
-Definition ex_join_cycle_pre : list pevent :=
-  (ex_join_lost_pre ++
-   [PJoin 2; PDeliver 1 0; PDeliver 0 2; PAnnounce 2; PDeliver 0 2; PDeliver 2 0;
-    PAnnounce 0; PDeliver 0 1; PAnnounce 1; PAnnounce 2;
-    PDeliver 1 0; PDeliver 2 0; PAnnounce 0; PDeliver 0 1; PAnnounce 1; PDeliver 0 2; PAnnounce 2;
-    PDeliver 2 0; PAnnounce 0; PDeliver 0 1; PDeliver 0 1; PAnnounce 1; PDeliver 0 2; PDeliver 0 2; PAnnounce 2;
-    PDeliver 1 0; PDeliver 2 0; PAnnounce 0; PDeliver 0 1; PDeliver 0 1; PAnnounce 1; PDeliver 0 2; PAnnounce 2])%N.
+Definition ex_join_cycle_post : list pevent :=
+  [PDeliver 1 0; PDeliver 0 2; PAnnounce 2; PDeliver 0 2; PDeliver 2 0;
+   PAnnounce 0; PDeliver 0 1; PAnnounce 1; PAnnounce 2;
+   PDeliver 1 0; PDeliver 2 0; PAnnounce 0; PDeliver 0 1; PAnnounce 1; PDeliver 0 2; PAnnounce 2;
+   PDeliver 2 0; PAnnounce 0; PDeliver 0 1; PDeliver 0 1; PAnnounce 1; PDeliver 0 2; PDeliver 0 2; PAnnounce 2;
+   PDeliver 1 0; PDeliver 2 0; PAnnounce 0; PDeliver 0 1; PDeliver 0 1; PAnnounce 1; PDeliver 0 2; PAnnounce 2]%N.
 Definition ex_join_cycle_loop : list pevent :=
   [PDeliver 1 0; PDeliver 2 0; PAnnounce 0; PDeliver 0 1; PDeliver 0 1; PAnnounce 1; PDeliver 0 2; PDeliver 0 2;
    PAnnounce 2; PDeliver 1 0; PDeliver 2 0; PAnnounce 0; PDeliver 0 1; PDeliver 0 1; PAnnounce 1; PDeliver 0 2;
    PDeliver 0 2; PAnnounce 2]%N.
 
-Theorem join_midflight_pingpong :
-  exists s, prun (pinit 1) ex_join_cycle_pre = Some s /\
-    prun s ex_join_cycle_loop = Some s /\ ptotal_sent s ex_join_cycle_loop = 12 /\
-    forallb (fun st => negb (pquiescentb st)) (pstates s ex_join_cycle_loop) = true /\
-    (forall k, prun (pinit 1) (ex_join_cycle_pre ++ iter_tr k ex_join_cycle_loop) = Some s /\
-               ptotal_sent (pinit 1) (ex_join_cycle_pre ++ iter_tr k ex_join_cycle_loop) = 27 + k * 12).
-Proof. apply cycle_check_sound. vm_compute. reflexivity. Qed.
-Print Assumptions join_midflight_pingpong.
+Example old_join_in_flight_now_quiescent :
+  (fun s => (pview s [0; 1; 2]%N, plink s 1 0, plink s 0 2))%N <$> prun (pinit 1) ex_join_flight_pre
+    = Some (([Some 7; Some 9; None]%N, false), [9]%N, [7]%N) /\
+  pview (prun_skip (pinit 1) (ex_join_flight_pre ++ ex_join_lost_post)) [0; 1; 2]%N = ([Some 9; Some 9; Some 9]%N, true) /\
+  pview (prun_skip (pinit 1) (ex_join_flight_pre ++ ex_join_cycle_post)) [0; 1; 2]%N = ([Some 9; Some 9; Some 9]%N, true) /\
+  prun_skip (pinit 1) (ex_join_flight_pre ++ ex_join_cycle_post ++ iter_tr 4 ex_join_cycle_loop)
+    = prun_skip (pinit 1) (ex_join_flight_pre ++ ex_join_cycle_post) /\
+  (* a complete drain: the joiner first applies the old parent (and stays silent), then the new one *)
+  (fun s => pview s [0; 1; 2]%N) <$>
+    prun (pinit 1) (ex_join_flight_pre ++ [PDeliver 0 2; PAnnounce 2; PDeliver 1 0; PAnnounce 0; PDeliver 0 2; PAnnounce 2]%N)
+    = Some ([Some 9; Some 9; Some 9]%N, true) /\
+  ptotal_sent (pinit 1)
+    (ex_join_flight_pre ++ [PDeliver 0 2; PAnnounce 2; PDeliver 1 0; PAnnounce 0; PDeliver 0 2; PAnnounce 2]%N) = 4 /\
+  writers_drain_separated (pinit 1) ex_join_flight_pre = true /\ last_set ex_join_flight_pre = Some 9%N.
+Proof. vm_compute. repeat split; reflexivity. Qed.
 
-Example join_midflight_pingpong_shape :
-  psets ex_join_cycle_pre = [(1, 7); (1, 9)]%N /\ pjoiners ex_join_cycle_pre = [2%N] /\
-  known_S19 (pinit 1) ex_join_cycle_pre = false /\ joins_safe (pinit 1) ex_join_cycle_pre = false.
-Proof. vm_compute. auto. Qed.
-
-(* traffic of a join at a quiescent state: the snapshot, the joiner's echo, its relay to the others *)
-Theorem join_messages_bounded s c s1 tr s' :
-  pwf s -> pquiescent s -> (exists x, Agree s x) -> pstep s (PJoin c) = Some s1 ->
-  Forall drain_event tr -> prun s1 tr = Some s' ->
-  ptotal_sent s (PJoin c :: tr) <= length (pconn s) + 2 /\ (pquiescent s' -> Agree s' (ppar s host)).
+Example old_join_in_flight_every_drain tr2 s'' :
+  Forall drain_event tr2 -> prun (pinit 1) (ex_join_flight_pre ++ tr2) = Some s'' -> pquiescent s'' ->
+  forall p, ppeers s'' p -> ppar s'' p = Some 9%N.
 Proof.
-  intros Hwf Hq [x Ha] Hjoin Hd Hrun. cbn [ptotal_sent psent_by]. rewrite Hjoin.
-  pose proof (step_wf _ _ _ Hwf Hjoin) as Hwf1.
-  assert (Hh : ppar s host = x) by (apply Ha; left; reflexivity). rewrite Hh.
-  destruct x as [u|].
-  - pose proof (agree_quiescent_ph u s Hq Ha) as HP.
-    assert (HP1 : Ph u s1) by (apply (ph_join u s c s1 Hwf HP (or_intror Hh) Hjoin)).
-    destruct (drain_run u tr s1 s' Hwf1 HP1 Hd Hrun) as (_ & HP' & _ & _ & Hs).
-    split; [|intros Hq'; apply ph_quiescent_agree; assumption].
-    pose proof (join_par s c s1) as Hpar. pose proof (join_chg s c s1) as Hchg.
-    specialize (fun q => Hpar q Hjoin). specialize (fun q => Hchg q Hjoin).
-    pose proof Hjoin as Hj. apply step_join in Hj as (Hch & Hcn & Hnone & Hc & _ & _ & Hl).
-    assert (Hcabs : ~ ppeers s c).
-    { intros H. apply (wf_exists s c Hwf) in H. rewrite Hnone in H. destruct H; discriminate. }
-    assert (H0 : forall q, ppeers s q -> pcnt1 u s1 q = 0).
-    { intros q Hq'. unfold pcnt1. rewrite Hpar, Hchg, (Ha q Hq'), (quiescent_chg _ _ Hq).
-      rewrite bool_decide_eq_true_2 by reflexivity. reflexivity. }
-    assert (Hcnt : pcnt u s1 = 1).
-    { unfold pcnt. rewrite Hc, sumf_app. rewrite (H0 host) by (left; reflexivity).
-      assert (Hz : sumf (pcnt1 u s1) (pconn s) = 0) by (apply sumf_zero; intros q Hq'; apply H0; right; exact Hq').
-      rewrite Hz. simpl. unfold pcnt1. rewrite Hpar, Hchg. destruct (wf_absent s c Hwf Hcabs) as [-> ->].
-      rewrite bool_decide_eq_false_2 by discriminate. reflexivity. }
-    assert (Hup : pups s1 = 0).
-    { unfold pups. apply sumf_zero. intros q _. rewrite Hl.
-      destruct (decide ((q, host) = (host, c))) as [E|_]; [congruence|]. rewrite (quiescent_link _ _ _ Hq). reflexivity. }
-    unfold ppotential in Hs at 2. rewrite Hcnt, Hup, Hc, app_length in Hs. simpl in *. nia.
-  - assert (HP : Ph0 s).
-    { split; [intros a b; apply quiescent_link; exact Hq|]. intros p. split; [apply quiescent_chg; exact Hq|].
-      destruct (decide (ppeers s p)) as [Hp|Hp]; [apply Ha; exact Hp|apply (wf_absent s p Hwf Hp)]. }
-    pose proof (ph0_join s c s1 HP Hjoin) as HP1.
-    destruct (quiescent_run_stable s1 tr s' (ph0_quiescent _ HP1) Hd Hrun) as [-> Hz].
-    rewrite Hz. simpl. split; [lia|]. intros _ p _. apply HP1.
+  intros Hd Hrun Hq.
+  apply (converges_under_every_drain 1 ex_join_flight_pre tr2 s''); [vm_compute; reflexivity|assumption..].
 Qed.
-Print Assumptions join_messages_bounded.
+
+(* ---- 8: outside the property: operations of two peers that are NOT drain separated ------------
+   The host and client 1 re-parent at the same time: the two links cross, each peer applies the
+   other's parent and (no echo) stays silent: quiescent for ever, and the two peers have SWAPPED
+   parents.  Three peers: the clients end with different parents. *)
+Theorem conflict_diverges :
+  exists tr s, prun (pinit 1) tr = Some s /\ pquiescent s /\
+    psets tr = [(0, 1); (1, 2)]%N /\ writers_drain_separated (pinit 1) tr = false /\
+    ppar s 0%N = Some 2%N /\ ppar s 1%N = Some 1%N.
+Proof.
+  set (tr := [PSet 0 1; PSet 1 2; PAnnounce 0; PAnnounce 1; PDeliver 0 1; PDeliver 1 0; PAnnounce 0; PAnnounce 1]%N).
+  destruct (prun (pinit 1) tr) as [s|] eqn:Hrun; [|vm_compute in Hrun; discriminate].
+  assert (Hv : (fun s => (pquiescentb s, ppar s 0%N, ppar s 1%N)) <$> prun (pinit 1) tr = Some (true, Some 2%N, Some 1%N))
+    by (vm_compute; reflexivity).
+  rewrite Hrun in Hv. simpl in Hv. injection Hv as Hq H0 H1.
+  exists tr, s. split; [exact Hrun|]. split; [apply (bool_decide_eq_true_1 (pquiescent s)); exact Hq|].
+  split; [reflexivity|]. split; [vm_compute; reflexivity|]. split; assumption.
+Qed.
+Print Assumptions conflict_diverges.
+
+Example conflict_diverges_three_peers :
+  let tr := [PSet 1 7; PSet 2 8; PAnnounce 1; PAnnounce 2; PDeliver 1 0; PDeliver 2 0; PDeliver 0 1; PDeliver 0 2;
+             PAnnounce 0; PAnnounce 1; PAnnounce 2]%N in
+  (fun s => pview s [0; 1; 2]%N) <$> prun (pinit 2) tr = Some ([Some 8; Some 8; Some 7]%N, true) /\
+  writers_drain_separated (pinit 2) tr = false.
+Proof. vm_compute. auto. Qed.
